@@ -1,15 +1,33 @@
 (* C07, PERIODIC branch of SplineObject.split (Model/Split.v: obj_split, the branch b_per1 <> 0):
-   after split_insert has raised the split values to full multiplicity p on the periodic object, the object is
-   opened at the first split value x: mu = bisect_left(knots, x), BSplineBasis.roll(mu), the last per1 knots are
-   dropped, the control net is rolled by mu (roll_matrix n mu), the direction becomes non-periodic with domain
-   [x, x + T]; the remaining split values are handled by the non-periodic branch on the opened object.
+   split_insert raises every split value to full multiplicity p on the periodic object, then the object is opened at the
+   first split value x0: mu = bisect_left(knots, x0), BSplineBasis.roll(mu), the last per1 knots are dropped, the control
+   net is rolled by mu (roll_matrix n mu); the direction becomes non-periodic with domain [x0, x0 + T] and the remaining
+   split values are handled by the non-periodic branch (Proofs/SplitCompose.v) on the opened object.
 
-   Part A (basis level)   Section Roll: the rolled and truncated knot list [kopen] is the window mu .. mu+n+p-1 of the
-                          periodic extension of the knots, it is sorted and clamped at x and x + T, and the dense periodic
-                          row and the open row are related by roll_matrix n mu (roll_open_row_rel), for every t of
-                          [x, x + T] with the one-sided conventions of evaluate, the periodic row being taken at t or t - T.
-   Part B (object level)  (below)
-   Part C (several values)(below) *)
+   Part A (basis level)   Section Roll, roll_open_basis: the rolled and truncated knot list [kopen] is the window
+                          mu .. mu+n+p-1 of the periodic extension [pext] of the knots, sorted, clamped at x and x + T;
+                          the dense periodic row (at t, or at t - T beyond the end of the periodic domain) and the open row
+                          at t are related by roll_matrix n mu, for every t of [x, x + T], both one-sided conventions
+                          (roll_open_row_rel).
+   Part B (object level)  along_eval / along_wf: replacing the basis of ONE direction (periodic or not) by another one and
+                          applying a matrix along it preserves obj_eval when the rows at the two normalised parameters are
+                          related (generalises Proofs/ChangeDirEval.v to periodic directions and differing normalisations);
+                          insert_one_per / insert_copies_per / split_insert_per_gen: knot insertion into a periodic direction
+                          end to end on obj_insert_knots / split_insert (from PeriodicInsert.v: basis_insert_knot on a
+                          canonical regular periodic basis, all three ghost-repair cases);
+                          roll_obj_eval / roll_obj_eval_seam: the roll step on the object;
+                          split_periodic_single: obj_split fuel tol o d [x] = Ok [o1], o1 well formed, non-periodic in d
+                          with domain [x, x + T], obj_eval o1 = obj_eval o on [x, x + T).
+   Part C (several values) obj_split_periodic: x0 < x1 < ... in [start, end): S (length rest) pieces tiling [x0, x0 + T]
+                          with the cut points rest, each evaluating to the original periodic object on its interval
+                          (composition with SplitCompose.obj_split_nonperiodic on the opened object).
+   Hypotheses (psplit_hyps): direction d canonical regular periodic (per_canon), strict seam (the ghost knot below the
+   start knot is strictly smaller), start <= x0, split values and the end of the domain increasing with gaps >= 2*tol,
+   knot_sep (what continuity() counts), multiplicities <= p.  Parameters (ppiece_param): the d-th parameter is "snap-free"
+   (equal to, or at distance >= tol from, every knot image: per_param_ok), lies in the piece's interval at least 2*tol below
+   its end (strictly below x0 + T in the last piece), and at the end of the periodic domain the seam knot must have
+   multiplicity <= p - 1 (the periodic object evaluates the LEFT limit there; refuted otherwise on the Python code).
+   Non-vacuity: Section Example (cubic, 8 functions, continuity 2, uniform knots; split at 5/2 and at [5/2, 5]). *)
 From Coq Require Import List Arith Reals Lra Lia Bool ZArith Sorted Permutation.
 From SplipyModel Require Import Spec.BSpline Spec.Boehm Spec.Deriv Model.Num Model.BasisDef Model.BasisEval Model.Tensor Model.Obj
   Model.KnotInsert Model.Tol Model.Split Model.Knots
@@ -249,3 +267,1422 @@ Proof.
       rewrite pext_start in W. symmetry. apply W. exact Hs'.
 Qed.
 End Roll.
+
+(* ------------------------------------------------------------------------------------------------ *)
+(* Part B.1: replacing the basis of one direction (periodic or not) and applying a matrix along it   *)
+(* ------------------------------------------------------------------------------------------------ *)
+(* the dense row the model computes for one (validated) parameter, any periodicity *)
+Lemma basis_row_spec tol (k : list R) p per1 t :
+  sorted (@kn R NumR k) -> (1 <= p)%nat -> (2 * p <= length k)%nat -> 0 < tol ->
+  @basis_row R NumR tol (mkBasis p k per1) 0 true t =
+    match @normalise R NumR k p per1 tol true (@snap1 R NumR k tol t) with
+    | None => repeat 0 (length k - p - per1)
+    | Some (t', side) => @ref_row R NumR side k p per1 0 t'
+    end.
+Proof.
+  intros HK Hp Hlen Htol. unfold basis_row. cbn [b_knots b_order b_per1].
+  pose proof (basis_evaluate_spec k p per1 HK Hp Hlen tol Htol 0 true [t] 0 ltac:(cbn; lia)) as E. cbv zeta in E. cbn [nth] in E.
+  destruct (Nat.leb_spec p 0) as [C|C]; [lia|].
+  rewrite <- E. destruct (@basis_evaluate R NumR k p per1 tol 0 true [t]); reflexivity.
+Qed.
+
+Lemma basis_eta (b : basis R) : b = mkBasis (b_order b) (b_knots b) (b_per1 b).
+Proof. destruct b; reflexivity. Qed.
+
+Lemma row_len_gen tol bs tsv i : (i < length bs)%nat ->
+  length (nth i (@rows_at R NumR tol bs [] [] tsv) []) = @b_nfun R (nth i bs dflt_basis).
+Proof.
+  intros Hi. rewrite rows_at_nth by exact Hi. unfold basis_row, basis_evaluate. cbv zeta. unfold b_nfun.
+  destruct (_ <=? _)%nat; cbn [map hd]; [apply repeat_length|].
+  unfold dense_row. destruct (@eval_point R NumR _ _ _ _ _ _ _) as [[m MM]|]; [rewrite map_length, seq_length; reflexivity|apply repeat_length].
+Qed.
+
+Lemma shape_rows_gen tol bs tsv : map (@length R) (@rows_at R NumR tol bs [] [] tsv) = map (@b_nfun R) bs.
+Proof.
+  apply (nth_ext _ _ 0%nat 0%nat).
+  - rewrite !map_length. apply rows_at_length.
+  - intros i Hi. rewrite map_length, rows_at_length in Hi.
+    rewrite (nth_map_gen _ _ i 0%nat []) by (rewrite rows_at_length; exact Hi). rewrite row_len_gen by exact Hi.
+    rewrite (nth_map_gen _ _ i 0%nat dflt_basis) by exact Hi. reflexivity.
+Qed.
+
+Lemma shape_pos tol (o : obj R) : wf_obj_R tol o -> (0 < prodl (@o_shape R o))%nat.
+Proof.
+  intros (HB & _). unfold o_shape, prodl. induction (o_bases o) as [|b bs IH]; cbn [map fold_right]; [lia|].
+  inversion HB as [|? ? Hb Hbs]; subst. destruct Hb as (_ & _ & _ & Hnf & _). specialize (IH Hbs). nia.
+Qed.
+
+Lemma upd_map {A B} (f : A -> B) (l : list A) i v : map f (upd l i v) = upd (map f l) i (f v).
+Proof. revert i. induction l as [|a l IH]; intros i; [destruct i; reflexivity|]. destruct i; cbn [upd map]; [reflexivity|]. f_equal. apply IH. Qed.
+
+Section Along.
+Variable tol : R.
+Hypothesis Htol : 0 < tol.
+Variable o : obj R.
+Hypothesis Hwf : wf_obj_R tol o.
+Variable d : nat.
+Hypothesis Hd : (d < length (o_bases o))%nat.
+Local Notation bd := (nth d (o_bases o) dflt_basis).
+Variable b' : basis R.
+Hypothesis Hwf' : wf_basis_R tol b'.
+Variable M : list (list R).
+Local Notation o' := (@obj_along R NumR o d b' M).
+
+Lemma al_nth_bases i : nth i (upd (o_bases o) d b') dflt_basis = if Nat.eq_dec i d then b' else nth i (o_bases o) dflt_basis.
+Proof. destruct (Nat.eq_dec i d) as [->|Hne]; [apply upd_nth_same; exact Hd|apply upd_nth_other; exact Hne]. Qed.
+
+Theorem along_wf : length M = @b_nfun R b' -> wf_obj_R tol o'.
+Proof.
+  intros HM. pose proof (shape_pos tol o Hwf) as Hpos. destruct Hwf as (HB & HV & HL).
+  split; [|split]; unfold obj_along; cbn [o_bases o_cps].
+  - apply Forall_forall. intros b Hb. destruct (In_nth _ _ dflt_basis Hb) as (i & Hi & <-). rewrite upd_length in Hi.
+    rewrite al_nth_bases. destruct (Nat.eq_dec i d) as [->|_]; [exact Hwf'|].
+    rewrite Forall_forall in HB. apply HB, nth_In, Hi.
+  - change (@o_ncomp R (mkObj (upd (o_bases o) d b') (@apply_dir R NumR (@o_ncomp R o) (@o_shape R o) d M (o_cps o)) (o_dim o) (o_rat o)))
+      with (@o_ncomp R o). apply Forall_apply_dir. exact HV.
+  - rewrite length_apply_dir; [|unfold o_shape; rewrite map_length; exact Hd|exact HL|exact Hpos].
+    unfold o_shape. cbn [o_bases]. rewrite upd_map, HM. reflexivity.
+Qed.
+
+(* the parameter tuple *)
+Variable ts : list R.
+Hypothesis Hdom : forall i, (i < length (o_bases o))%nat -> in_dom tol (nth i (o_bases o) dflt_basis) (nth i ts 0).
+Local Notation td := (nth d ts 0).
+Hypothesis Hdom' : in_dom tol b' td.
+Variables (t1 t2 : R) (s1 s2 : bool).
+Hypothesis HN1 : @normalise R NumR (b_knots bd) (b_order bd) (b_per1 bd) tol true (@snap1 R NumR (b_knots bd) tol td) = Some (t1, s1).
+Hypothesis HN2 : @normalise R NumR (b_knots b') (b_order b') (b_per1 b') tol true (@snap1 R NumR (b_knots b') tol td) = Some (t2, s2).
+Hypothesis HRR : row_rel (@ref_row R NumR s1 (b_knots bd) (b_order bd) (b_per1 bd) 0 t1)
+                         (@ref_row R NumR s2 (b_knots b') (b_order b') (b_per1 b') 0 t2) M.
+
+Local Notation bs' := (upd (o_bases o) d b').
+Local Notation tsv := (map (fun i => @snap1 R NumR (b_knots (nth i (o_bases o) dflt_basis)) tol (nth i ts 0)) (seq 0 (length (o_bases o)))).
+Local Notation tsv' := (map (fun i => @snap1 R NumR (b_knots (nth i bs' dflt_basis)) tol (nth i ts 0)) (seq 0 (length bs'))).
+Local Notation rows := (@rows_at R NumR tol (o_bases o) [] [] tsv).
+Local Notation rows' := (@rows_at R NumR tol bs' [] [] tsv').
+
+Lemma al_tsv_nth i : (i < length (o_bases o))%nat -> nth i tsv 0 = @snap1 R NumR (b_knots (nth i (o_bases o) dflt_basis)) tol (nth i ts 0).
+Proof. intros Hi. rewrite (nth_map_gen _ _ i 0 0%nat) by (rewrite seq_length; exact Hi). rewrite seq_nth by exact Hi. reflexivity. Qed.
+Lemma al_tsv'_nth i : (i < length (o_bases o))%nat -> nth i tsv' 0 = @snap1 R NumR (b_knots (nth i bs' dflt_basis)) tol (nth i ts 0).
+Proof. intros Hi. rewrite (nth_map_gen _ _ i 0 0%nat) by (rewrite seq_length, upd_length; exact Hi). rewrite seq_nth by (rewrite upd_length; exact Hi). reflexivity. Qed.
+
+Lemma al_validate : @validate R NumR tol (o_bases o) ts = Ok tsv.
+Proof. destruct (validate_spec tol (o_bases o) ts) as [V1 _]. apply V1. exact Hdom. Qed.
+Lemma al_validate' : @validate R NumR tol bs' ts = Ok tsv'.
+Proof.
+  destruct (validate_spec tol bs' ts) as [V1 _]. apply V1. rewrite upd_length. intros i Hi. rewrite al_nth_bases.
+  destruct (Nat.eq_dec i d) as [->|_]; [exact Hdom'|apply Hdom; exact Hi].
+Qed.
+
+Lemma al_rows : nth d rows [] = @ref_row R NumR s1 (b_knots bd) (b_order bd) (b_per1 bd) 0 t1 /\
+  rows' = upd rows d (@ref_row R NumR s2 (b_knots b') (b_order b') (b_per1 b') 0 t2).
+Proof.
+  destruct Hwf as (HB & _). rewrite Forall_forall in HB.
+  destruct (HB bd (nth_In _ _ Hd)) as (HK & Hp & Hlen & _).
+  destruct Hwf' as (HK' & Hp' & Hlen' & _).
+  split.
+  - rewrite rows_at_nth by exact Hd. rewrite !nth_nil_any. rewrite al_tsv_nth by exact Hd.
+    rewrite (basis_eta bd) at 1. rewrite (basis_row_spec tol _ _ _ _ HK Hp Hlen Htol).
+    rewrite (snap1_idem _ HK tol Htol). rewrite HN1. reflexivity.
+  - apply (nth_ext _ _ [] []).
+    + rewrite !rows_at_length, !upd_length, ?rows_at_length. reflexivity.
+    + intros i Hi. rewrite rows_at_length, upd_length in Hi.
+      rewrite rows_at_nth by (rewrite upd_length; exact Hi). rewrite !nth_nil_any. rewrite al_tsv'_nth by exact Hi.
+      rewrite al_nth_bases. destruct (Nat.eq_dec i d) as [->|Hne].
+      * rewrite upd_nth_same by (rewrite rows_at_length; exact Hd).
+        rewrite (basis_eta b') at 1. rewrite (basis_row_spec tol _ _ _ _ HK' Hp' Hlen' Htol).
+        rewrite (snap1_idem _ HK' tol Htol). rewrite HN2. reflexivity.
+      * rewrite upd_nth_other by exact Hne. rewrite rows_at_nth by exact Hi. rewrite !nth_nil_any.
+        rewrite al_tsv_nth by exact Hi. reflexivity.
+Qed.
+
+Theorem along_eval : @obj_eval R NumR tol o' ts = @obj_eval R NumR tol o ts.
+Proof.
+  unfold obj_eval. unfold obj_along at 1. cbn [o_bases]. rewrite al_validate, al_validate'.
+  unfold obj_along. cbn [o_rat o_dim].
+  assert (EH : @eval_h R NumR tol (mkObj bs' (@apply_dir R NumR (@o_ncomp R o) (@o_shape R o) d M (o_cps o)) (o_dim o) (o_rat o)) [] [] tsv'
+               = @eval_h R NumR tol o [] [] tsv).
+  { unfold eval_h. cbn [o_bases o_cps].
+    change (@o_ncomp R (mkObj bs' (@apply_dir R NumR (@o_ncomp R o) (@o_shape R o) d M (o_cps o)) (o_dim o) (o_rat o))) with (@o_ncomp R o).
+    destruct al_rows as (Hrow & Hrows'). rewrite Hrows'.
+    pose proof (shape_pos tol o Hwf) as Hpos0. destruct Hwf as (HB & HV & HL).
+    assert (Hsh : map (@length R) rows = @o_shape R o) by apply shape_rows_gen.
+    assert (Hnet : net_ok (@o_ncomp R o) rows (o_cps o)) by (split; [exact HV|rewrite Hsh; exact HL]).
+    assert (Hpos : (0 < prodl (map (@length R) rows))%nat) by (rewrite Hsh; exact Hpos0).
+    assert (Hdr : (d < length rows)%nat) by (rewrite rows_at_length; exact Hd).
+    rewrite <- Hsh.
+    assert (RR : row_rel (nth d rows []) (@ref_row R NumR s2 (b_knots b') (b_order b') (b_per1 b') 0 t2) M) by (rewrite Hrow; exact HRR).
+    pose proof (net_ok_apply_dir (@o_ncomp R o) rows d (o_cps o) _ M Hdr Hnet Hpos RR) as Hnet'.
+    apply (nth_ext _ _ 0 0).
+    - rewrite (teval_length _ _ _ Hnet'), (teval_length _ _ _ Hnet). reflexivity.
+    - intros c Hc. rewrite (teval_length _ _ _ Hnet') in Hc.
+      apply (preserves_map_of_row_rel (@o_ncomp R o) c rows d (o_cps o) _ M Hdr Hc Hnet Hpos RR). }
+  rewrite EH. reflexivity.
+Qed.
+End Along.
+
+(* ------------------------------------------------------------------------------------------------ *)
+(* Part B.2: parameters that snap() does not move; normalise on a periodic basis                     *)
+(* ------------------------------------------------------------------------------------------------ *)
+(* t is a knot value of l or at distance >= tol from every knot value of l *)
+Definition snapfree (tol : R) (l : list R) (t : R) : Prop := forall v, In v l -> v = t \/ tol <= Rabs (v - t).
+
+Lemma snapfree_snap (l : list R) tol t : sorted (@kn R NumR l) -> 0 < tol -> snapfree tol l t -> @snap1 R NumR l tol t = t.
+Proof.
+  intros HK Htol Hf. destruct (In_dec Req_EM_T t l) as [I|N]; [apply snap1_member; assumption|].
+  apply snap1_far_all; [exact HK|exact Htol|]. intros v Hv. destruct (Hf v Hv) as [->|H]; [contradiction|exact H].
+Qed.
+
+Lemma snapfree_incl tol l1 l2 t : (forall v, In v l1 -> In v l2) -> snapfree tol l2 t -> snapfree tol l1 t.
+Proof. intros H Hf v Hv. apply Hf, H, Hv. Qed.
+
+Lemma snapfree_far tol l t v : snapfree tol l t -> In v l -> v <> t -> v + tol <= t \/ t + tol <= v.
+Proof.
+  intros Hf Hv Hne. destruct (Hf v Hv) as [E|H]; [contradiction|].
+  unfold Rabs in H. destruct (Rcase_abs (v - t)); [left|right]; lra.
+Qed.
+
+Lemma Rltb_false a b : ~ a < b -> Rltb a b = false.
+Proof. intros H. destruct (Rltb_spec a b); [contradiction|reflexivity]. Qed.
+Lemma Rltb_true a b : a < b -> Rltb a b = true.
+Proof. intros H. destruct (Rltb_spec a b); [reflexivity|contradiction]. Qed.
+
+(* normalise on a periodic basis, from the right: the three cases of a parameter of [start, end + T) *)
+Section NormPer.
+Variables (k : list R) (p per1 : nat) (tol : R).
+Hypothesis Hper : per1 <> 0%nat.
+Hypothesis Htol : 0 < tol.
+Local Notation s := (@kn R NumR k (p - 1)).
+Local Notation e := (@kn R NumR k (length k - p)).
+Hypothesis Hw : 2 * tol <= e - s.
+
+Lemma normalise_per_in u : s <= u <= e - tol -> @normalise R NumR k p per1 tol true u = Some (u, true).
+Proof.
+  intros Hu. unfold normalise. cbv zeta. unfold wrap_t.
+  destruct (Nat.eqb_spec per1 0) as [C|_]; [contradiction|]. cbn [negb andb].
+  rewrite !nabs_R. cbn [nltb nsub nadd NumR].
+  repeat (first [rewrite (Rltb_false u s) by lra | rewrite (Rltb_false e u) by lra | progress cbn [orb andb negb] | rewrite andb_false_r]).
+  rewrite (Rltb_false (Rabs (u - e)) tol) by (rewrite Rabs_left1 by lra; lra).
+  rewrite andb_false_r. reflexivity.
+Qed.
+
+Lemma normalise_per_end : @normalise R NumR k p per1 tol true e = Some (e, false).
+Proof.
+  unfold normalise. cbv zeta. unfold wrap_t.
+  destruct (Nat.eqb_spec per1 0) as [C|_]; [contradiction|]. cbn [negb andb].
+  rewrite !nabs_R. cbn [nltb nsub nadd NumR].
+  repeat (first [rewrite (Rltb_false e s) by lra | rewrite (Rltb_false e e) by lra | progress cbn [orb andb negb] | rewrite andb_false_r]).
+  replace (e - e) with 0 by ring. rewrite Rabs_R0. rewrite (Rltb_true 0 tol) by lra. cbn [negb andb].
+  rewrite andb_true_r. rewrite (Rltb_false (Rabs (e - s)) tol) by (rewrite Rabs_right by lra; lra). reflexivity.
+Qed.
+
+Lemma normalise_per_wrap u : e < u <= e + (e - s) - tol -> @normalise R NumR k p per1 tol true u = Some (u - (e - s), true).
+Proof.
+  intros Hu. unfold normalise. cbv zeta. unfold wrap_t.
+  destruct (Nat.eqb_spec per1 0) as [C|_]; [contradiction|]. cbn [negb andb].
+  rewrite !nabs_R. cbn [nltb nsub nadd NumR].
+  assert (Ef : @nfmod R NumR (u - s) (e - s) = u - (e - s) - s).
+  { replace (u - s) with ((u - (e - s) - s) + IZR 1 * (e - s)) by (simpl; ring). apply nfmod_shift; lra. }
+  repeat (first [rewrite (Rltb_false u s) by lra | rewrite (Rltb_true e u) by lra | progress cbn [orb andb negb] | rewrite andb_false_r]).
+  rewrite Ef. replace (u - (e - s) - s + s) with (u - (e - s)) by ring.
+  rewrite (Rltb_false (u - (e - s)) s) by lra. rewrite (Rltb_false e (u - (e - s))) by lra. cbn [orb].
+  rewrite (Rltb_false (Rabs (u - (e - s) - e)) tol) by (rewrite Rabs_left1 by lra; lra).
+  rewrite andb_false_r. reflexivity.
+Qed.
+
+(* the result depends on the knots only through the end points of the domain *)
+Lemma normalise_same_domain (k2 : list R) u :
+  @kn R NumR k2 (p - 1) = s -> @kn R NumR k2 (length k2 - p) = e ->
+  @normalise R NumR k2 p per1 tol true u = @normalise R NumR k p per1 tol true u.
+Proof. intros E1 E2. unfold normalise. cbv zeta. rewrite E1, E2. reflexivity. Qed.
+End NormPer.
+
+(* ------------------------------------------------------------------------------------------------ *)
+(* Part B.3: one period of knots; multiplicities; continuity() on a periodic basis                   *)
+(* ------------------------------------------------------------------------------------------------ *)
+(* the ghost knot below the start knot is strictly smaller: the copies of the start knot all lie in one period *)
+Definition per_strict (k : list R) (per1 : nat) : Prop := @kn R NumR k (per1 - 1) < @kn R NumR k per1.
+(* one period of knots: the n knots from the start knot on *)
+Definition pwin (k : list R) (per1 n : nat) : list R := firstn n (skipn per1 k).
+(* all the values a knot of the list can take: one period and its two neighbouring images *)
+Definition pvals (k : list R) (per1 n : nat) (T : R) : list R :=
+  pwin k per1 n ++ map (fun v => v + T) (pwin k per1 n) ++ map (fun v => v - T) (pwin k per1 n).
+
+Lemma pwin_length k per1 n : (per1 + n <= length k)%nat -> length (pwin k per1 n) = n.
+Proof. intros H. unfold pwin. rewrite firstn_length, skipn_length. lia. Qed.
+Lemma pwin_nth k per1 n i : (i < n)%nat -> nth i (pwin k per1 n) 0 = nth (per1 + i) k 0.
+Proof. intros H. unfold pwin. rewrite InsertMatrix.nth_firstn_lt by exact H. apply InsertMatrix.nth_skipn_add. Qed.
+Lemma pwin_in k per1 n i : (per1 + n <= length k)%nat -> (per1 <= i < per1 + n)%nat -> In (@kn R NumR k i) (pwin k per1 n).
+Proof.
+  intros Hl Hi. rewrite kn_nth by lia. replace i with (per1 + (i - per1))%nat by lia. rewrite <- (pwin_nth k per1 n) by lia.
+  apply nth_In. rewrite pwin_length by exact Hl. lia.
+Qed.
+Lemma pwin_sub k per1 n v : In v (pwin k per1 n) -> In v k.
+Proof.
+  unfold pwin. intros H. rewrite <- (firstn_skipn per1 k). apply in_or_app. right.
+  rewrite <- (firstn_skipn n (skipn per1 k)). apply in_or_app. left. exact H.
+Qed.
+
+Lemma pvals_in k per1 n T v : In v (pvals k per1 n T) <->
+  (In v (pwin k per1 n) \/ In (v - T) (pwin k per1 n) \/ In (v + T) (pwin k per1 n)).
+Proof.
+  unfold pvals. rewrite !in_app_iff, !in_map_iff. split.
+  - intros [H|[(w & <- & H)|(w & <- & H)]]; [left; exact H|right; left|right; right].
+    + replace (w + T - T) with w by ring. exact H.
+    + replace (w - T + T) with w by ring. exact H.
+  - intros [H|[H|H]]; [left; exact H|right; left|right; right].
+    + exists (v - T). split; [ring|exact H].
+    + exists (v + T). split; [ring|exact H].
+Qed.
+
+Section Window.
+Variable k : list R.
+Variables (p per1 n : nat) (T : R).
+Hypothesis Hcan : per_canon k p per1 n T.
+Local Notation K := (@kn R NumR k).
+
+Lemma canon_facts : sorted K /\ (1 <= per1)%nat /\ (per1 + 1 <= p)%nat /\ length k = (n + per1 + p)%nat /\ (p + per1 - 1 <= n)%nat /\ 0 < T.
+Proof. destruct Hcan as (A & B & C & D & E & F & _). repeat split; assumption. Qed.
+
+(* every knot of a canonical periodic list is a knot of the period, or an image of one *)
+Lemma canon_values v : In v k -> In v (pvals k per1 n T).
+Proof.
+  destruct Hcan as (HK & Hper1 & Hpp & Hlen & Hreg & HT & Hseam & Himg).
+  intros Hin. destruct (In_nth _ _ 0 Hin) as (j & Hj & <-). rewrite <- (kn_nth k j Hj). apply pvals_in.
+  destruct (Nat.lt_ge_cases j per1) as [A|A]; [|destruct (Nat.lt_ge_cases j (per1 + n)) as [B|B]].
+  - right. right. rewrite <- Himg by lia. apply pwin_in; lia.
+  - left. apply pwin_in; lia.
+  - right. left. replace j with ((j - n) + n)%nat at 1 by lia. rewrite Himg by lia.
+    replace (K (j - n)%nat + T - T) with (K (j - n)%nat) by ring. apply pwin_in; lia.
+Qed.
+
+Lemma pwin_range v : In v (pwin k per1 n) -> K per1 <= v <= K (per1 + n - 1)%nat.
+Proof.
+  destruct Hcan as (HK & Hper1 & Hpp & Hlen & Hreg & HT & Hseam & Himg).
+  intros Hin. destruct (In_nth _ _ 0 Hin) as (j & Hj & <-). rewrite pwin_length in Hj by lia.
+  rewrite pwin_nth by exact Hj. rewrite <- kn_nth by lia. split; apply HK; lia.
+Qed.
+
+Hypothesis Hstrict : per_strict k per1.
+
+(* under strictness the period lies in [start, end) *)
+Lemma pwin_range_strict v : In v (pwin k per1 n) -> K (p - 1)%nat <= v < K (n + per1)%nat.
+Proof.
+  destruct Hcan as (HK & Hper1 & Hpp & Hlen & Hreg & HT & Hseam & Himg).
+  intros Hin. destruct (pwin_range v Hin) as [A B]. rewrite Hseam in A. split; [exact A|].
+  replace (per1 + n - 1)%nat with ((per1 - 1) + n)%nat in B by lia. rewrite Himg in B by lia.
+  replace (n + per1)%nat with (per1 + n)%nat by lia. rewrite Himg by lia. unfold per_strict in Hstrict. lra.
+Qed.
+
+(* the multiplicity of a value of [start, end) in the whole list is its multiplicity in the period *)
+Lemma mult_window x : K (p - 1)%nat <= x < K (n + per1)%nat -> mult k x = count_occ Req_EM_T (pwin k per1 n) x.
+Proof.
+  destruct Hcan as (HK & Hper1 & Hpp & Hlen & Hreg & HT & Hseam & Himg).
+  intros Hx. unfold mult, pwin.
+  rewrite <- (firstn_skipn per1 k) at 1. rewrite <- (firstn_skipn n (skipn per1 k)) at 1. rewrite !count_occ_app.
+  assert (E1 : count_occ Req_EM_T (firstn per1 k) x = 0%nat).
+  { apply count_occ_not_In. intros Hin. destruct (In_nth _ _ 0 Hin) as (j & Hj & Ej).
+    rewrite firstn_length in Hj. rewrite InsertMatrix.nth_firstn_lt in Ej by lia. rewrite <- kn_nth in Ej by lia.
+    pose proof (HK j (per1 - 1)%nat ltac:(lia)). unfold per_strict in Hstrict. lra. }
+  assert (E3 : count_occ Req_EM_T (skipn n (skipn per1 k)) x = 0%nat).
+  { apply count_occ_not_In. intros Hin. destruct (In_nth _ _ 0 Hin) as (j & Hj & Ej).
+    rewrite !skipn_length in Hj. rewrite !InsertMatrix.nth_skipn_add in Ej. rewrite <- kn_nth in Ej by lia.
+    pose proof (HK (n + per1)%nat (per1 + (n + j))%nat ltac:(lia)). lra. }
+  rewrite E1, E3. lia.
+Qed.
+End Window.
+
+(* BSplineBasis.continuity on a periodic basis, for a value of the domain whose tolerance window holds no other knot *)
+Lemma continuity_exact_per (tol : R) (k : list R) (p per1 : nat) (x : R) :
+  sorted (@kn R NumR k) -> 0 < tol -> knot_sep tol k x ->
+  @kn R NumR k (p - 1) <= x <= @kn R NumR k (length k - p) ->
+  exists c, @basis_continuity R NumR tol (mkBasis p k per1) x = Ok c /\
+    Z.to_nat ((match c with None => (Z.of_nat p - 1)%Z | Some z => z end) + 1) = (p - mult k x)%nat.
+Proof.
+  intros HK Htol Hsep Hx.
+  unfold basis_continuity, b_start, b_end. cbn [b_per1 b_order b_knots].
+  cbn [nltb nadd nsub NumR].
+  destruct (Rltb_spec x (@kn R NumR k (p - 1))) as [A|A]; [lra|].
+  destruct (Rltb_spec (@kn R NumR k (length k - p)) x) as [B|B]; [lra|]. cbn [orb]. rewrite !andb_false_r.
+  destruct (continuity_window k x tol HK Htol) as (W1 & W2). cbv zeta in *.
+  set (hi := @py_bisect_left R NumR k (x + tol)) in *. set (lo := @py_bisect_left R NumR k (x - tol)) in *.
+  pose proof (bisect_lr_le k x HK) as Hle.
+  assert (Hbr : (@py_bisect_right R NumR k x <= length k)%nat).
+  { unfold py_bisect_right. destruct (bisect_right_spec (@kn R NumR k) HK x (length k)) as (B1 & _). exact B1. }
+  pose proof (fun j Hj => bisect_window k x j HK Hj) as W.
+  rewrite (count_bisect k x HK).
+  set (bl := @py_bisect_left R NumR k x) in *. set (br := @py_bisect_right R NumR k x) in *.
+  assert (Same : forall j, (j < length k)%nat -> ((lo <= j < hi)%nat <-> (bl <= j < br)%nat)).
+  { intros j Hj. rewrite (W2 j Hj), (W j Hj). split.
+    - intros Hw. destruct (Hsep _ (kn_In' k j Hj)) as [E|[E|E]]; [exact E|lra|lra].
+    - intros E. rewrite E. lra. }
+  assert (Hdiff : (hi - lo = br - bl)%nat).
+  { destruct (Nat.lt_ge_cases lo hi) as [L|L].
+    - pose proof (proj1 (Same lo ltac:(lia)) ltac:(lia)). pose proof (proj1 (Same (hi - 1)%nat ltac:(lia)) ltac:(lia)).
+      pose proof (proj2 (Same bl ltac:(lia)) ltac:(lia)). pose proof (proj2 (Same (br - 1)%nat ltac:(lia)) ltac:(lia)). lia.
+    - destruct (Nat.lt_ge_cases bl br) as [L2|L2]; [|lia].
+      pose proof (proj2 (Same bl ltac:(lia)) ltac:(lia)). lia. }
+  destruct (Nat.eqb_spec hi lo) as [E|E].
+  - eexists. split; [reflexivity|]. lia.
+  - eexists. split; [reflexivity|]. lia.
+Qed.
+
+(* ------------------------------------------------------------------------------------------------ *)
+(* Part B.4: knot insertion in a periodic direction, end to end on the object                        *)
+(* ------------------------------------------------------------------------------------------------ *)
+Lemma pvals_perm (k1 k2 : list R) per1 n1 n2 T x :
+  Permutation (pwin k1 per1 n1) (x :: pwin k2 per1 n2) ->
+  forall v, In v (pvals k1 per1 n1 T) -> In v (pvals k2 per1 n2 T) \/ In v [x; x + T; x - T].
+Proof.
+  intros HP v Hv. apply pvals_in in Hv. rewrite pvals_in. cbn [In].
+  destruct Hv as [H|[H|H]]; apply (Permutation_in _ HP) in H; destruct H as [E|H].
+  - right. left. exact E.
+  - left. left. exact H.
+  - right. right. left. lra.
+  - left. right. left. exact H.
+  - right. right. right. left. lra.
+  - left. right. right. exact H.
+Qed.
+
+Section InsertPer.
+Variable tol : R.
+Hypothesis Htol : 0 < tol.
+Variable d : nat.
+Variables (p per1 : nat) (T : R).
+
+(* what is kept from one object to the next during the insertions in the periodic direction d *)
+Definition per_frame (oc : obj R) (kc : list R) (o1 : obj R) (k1 : list R) (n1 : nat) : Prop :=
+  wf_obj_R tol o1 /\ length (o_bases o1) = length (o_bases oc) /\
+  (forall i, i <> d -> nth i (o_bases o1) dflt_basis = nth i (o_bases oc) dflt_basis) /\
+  nth d (o_bases o1) dflt_basis = mkBasis p k1 per1 /\
+  per_canon k1 p per1 n1 T /\ per_strict k1 per1 /\
+  @kn R NumR k1 (p - 1) = @kn R NumR kc (p - 1).
+
+Lemma per_frame_trans o0 k0 o1 k1 n1 o2 k2 n2 : per_frame o0 k0 o1 k1 n1 -> per_frame o1 k1 o2 k2 n2 -> per_frame o0 k0 o2 k2 n2.
+Proof.
+  intros (_ & L1 & O1 & B1 & C1 & S1 & E1) (W2 & L2 & O2 & B2 & C2 & S2 & E2).
+  split; [exact W2|]. split; [lia|]. split; [intros i Hi; rewrite (O2 i Hi); apply O1; exact Hi|].
+  split; [exact B2|]. split; [exact C2|]. split; [exact S2|]. rewrite E2. exact E1.
+Qed.
+
+Lemma dom_transfer_per oc kc o1 k1 n1 ts : (1 <= per1)%nat -> per_frame oc kc o1 k1 n1 -> dom_all tol oc ts -> dom_all tol o1 ts.
+Proof.
+  intros Hp1 (_ & Hl & Hoth & Hb1 & _) Hdom i Hi. rewrite Hl in Hi.
+  destruct (Nat.eq_dec i d) as [->|Hne].
+  - rewrite Hb1. unfold in_dom. cbn [b_per1]. intros E. lia.
+  - rewrite (Hoth i Hne). apply Hdom. exact Hi.
+Qed.
+
+Lemma insert_one_per (oc : obj R) kc n x :
+  wf_obj_R tol oc -> (d < length (o_bases oc))%nat -> nth d (o_bases oc) dflt_basis = mkBasis p kc per1 ->
+  per_canon kc p per1 n T -> per_strict kc per1 ->
+  @kn R NumR kc (p - 1) <= x < @kn R NumR kc (n + per1) ->
+  exists o1 k1, @obj_insert_knots R NumR oc d [x] = Ok o1 /\ per_frame oc kc o1 k1 (n + 1) /\
+    Permutation (pwin k1 per1 (n + 1)) (x :: pwin kc per1 n) /\
+    forall ts, dom_all tol oc ts -> snapfree tol (pvals kc per1 n T) (nth d ts 0) -> snapfree tol [x; x + T; x - T] (nth d ts 0) ->
+      @obj_eval R NumR tol o1 ts = @obj_eval R NumR tol oc ts.
+Proof.
+  intros Hwf Hd Hb Hcan Hstrict Hx.
+  pose proof Hcan as (HK & Hper1 & Hpp & Hlen & Hreg & HT & Hseam & Himg).
+  set (knew := knew_model kc p per1 x).
+  set (C := @mat_of_writes R NumR (n + 1) n (@insert_writes R NumR kc p n (@py_bisect_right R NumR kc x) x)).
+  pose proof (canon_insert_canon kc p per1 n T Hcan x Hx) as Hcan'. fold knew in Hcan'.
+  pose proof Hcan' as (HK' & _ & _ & Hlen' & Hreg' & _ & Hseam' & Himg').
+  pose proof (canon_insert_start kc p per1 n T Hcan x Hx) as Hs'. fold knew in Hs'. unfold b_start in Hs'. cbn [b_knots b_order] in Hs'.
+  pose proof (canon_insert_end kc p per1 n T Hcan x Hx) as He'. fold knew in He'. unfold b_end in He'. cbn [b_knots b_order] in He'.
+  pose proof (canon_period kc p per1 n T Hcan) as Hperiod.
+  destruct (mu_bracket_per kc p per1 n T Hcan x Hx) as [Hmu Hbr].
+  (* the old basis is well formed *)
+  assert (Hbwf : wf_basis_R tol (mkBasis p kc per1)).
+  { destruct Hwf as (HB & _). rewrite Forall_forall in HB. rewrite <- Hb. apply HB, nth_In, Hd. }
+  destruct Hbwf as (_ & Hp & Hl2 & Hnf & Hw). unfold b_start, b_end in Hw. cbn [b_knots b_order] in *.
+  replace (length kc - p)%nat with (n + per1)%nat in Hw by lia.
+  assert (Hwf' : wf_basis_R tol (mkBasis p knew per1)).
+  { split; [exact HK'|]. cbn [b_order b_knots]. split; [exact Hp|]. split; [lia|].
+    split; [unfold b_nfun; cbn [b_knots b_order b_per1]; lia|].
+    unfold b_start, b_end. cbn [b_knots b_order]. rewrite He', Hs'. exact Hw. }
+  assert (HM : length C = @b_nfun R (mkBasis p knew per1)).
+  { unfold C, mat_of_writes, b_nfun. rewrite map_length, seq_length. cbn [b_knots b_order b_per1]. lia. }
+  assert (Hok : @obj_insert_knots R NumR oc d [x] = Ok (@obj_along R NumR oc d (mkBasis p knew per1) C)).
+  { cbn [obj_insert_knots]. change (@mkBasis R 0 [] 0) with dflt_basis. rewrite Hb.
+    rewrite (insert_knot_unfold kc p per1 n T Hcan x Hx). reflexivity. }
+  (* strictness *)
+  assert (Hstrict' : per_strict knew per1).
+  { unfold per_strict. rewrite Hseam', Hs'.
+    assert (E1 : @kn R NumR knew (per1 - 1) + T = @kn R NumR knew (per1 + n)).
+    { rewrite <- Himg' by lia. f_equal. lia. }
+    unfold knew in E1. rewrite (window_knots kc p per1 n T Hcan x Hx (per1 + n)%nat) in E1 by lia. unfold k' in E1.
+    destruct (Nat.ltb_spec (per1 + n) (@py_bisect_right R NumR kc x)) as [A|A]; [lia|].
+    destruct (Nat.eqb_spec (per1 + n) (@py_bisect_right R NumR kc x)) as [B|B].
+    - fold knew in E1. lra.
+    - fold knew in E1. replace (per1 + n - 1)%nat with ((per1 - 1) + n)%nat in E1 by lia. rewrite Himg in E1 by lia.
+      unfold per_strict in Hstrict. rewrite Hseam in Hstrict. lra. }
+  assert (Hperm : Permutation (pwin knew per1 (n + 1)) (x :: pwin kc per1 n)).
+  { unfold pwin, knew. rewrite (canon_insert_period_knots kc p per1 n T Hcan x Hx). apply insert_at_perm. }
+  exists (@obj_along R NumR oc d (mkBasis p knew per1) C), knew.
+  split; [exact Hok|]. split.
+  { split; [apply (along_wf tol oc Hwf d Hd _ Hwf' C HM)|].
+    unfold obj_along. cbn [o_bases]. split; [apply upd_length|]. split; [intros i Hi; apply upd_nth_other; exact Hi|].
+    split; [apply upd_nth_same; exact Hd|]. split; [exact Hcan'|]. split; [exact Hstrict'|exact Hs']. }
+  split; [exact Hperm|].
+  intros ts Hdom Hsf Hsx.
+  assert (Hsn : @snap1 R NumR kc tol (nth d ts 0) = nth d ts 0).
+  { apply snapfree_snap; [exact HK|exact Htol|]. apply (snapfree_incl tol _ (pvals kc per1 n T)); [|exact Hsf].
+    apply (canon_values kc p per1 n T Hcan). }
+  assert (Hsn' : @snap1 R NumR knew tol (nth d ts 0) = nth d ts 0).
+  { apply snapfree_snap; [exact HK'|exact Htol|]. intros v Hv.
+    apply (canon_values knew p per1 (n + 1) T Hcan') in Hv.
+    destruct (pvals_perm knew kc per1 (n + 1) n T x Hperm v Hv) as [H|H]; [apply Hsf; exact H|apply Hsx; exact H]. }
+  destruct (normalise_some kc p per1 tol Htol ltac:(rewrite Hlen; replace (n + per1 + p - p)%nat with (n + per1)%nat by lia; exact Hw)
+              (nth d ts 0) ltac:(intros; lia)) as (t1 & s1 & EN).
+  assert (EN' : @normalise R NumR knew p per1 tol true (nth d ts 0) = Some (t1, s1)).
+  { rewrite <- EN. apply normalise_same_domain.
+    - exact Hs'.
+    - rewrite Hlen. replace (n + per1 + p - p)%nat with (n + per1)%nat by lia. exact He'. }
+  destruct (normalised_in_domain kc p per1 tol true (nth d ts 0) t1 s1 Htol EN) as [Ha Hbe].
+  unfold b_start, b_end in Ha, Hbe. cbn [b_knots b_order] in Ha, Hbe.
+  replace (length kc - p)%nat with (n + per1)%nat in Hbe by lia.
+  apply (along_eval tol Htol oc Hwf d Hd (mkBasis p knew per1) Hwf' C ts Hdom) with (t1 := t1) (t2 := t1) (s1 := s1) (s2 := s1).
+  - unfold in_dom. cbn [b_per1]. intros E. lia.
+  - rewrite Hb. cbn [b_knots b_order b_per1]. rewrite Hsn. exact EN.
+  - cbn [b_knots b_order b_per1]. rewrite Hsn'. exact EN'.
+  - rewrite Hb. cbn [b_knots b_order b_per1]. apply (canon_insert_row_rel kc p per1 n T Hcan x Hx s1 t1 Ha Hbe).
+Qed.
+
+(* the domain [start, end) seen from a later knot list of the same frame *)
+Lemma frame_domain oc kc n o1 k1 n1 x : per_canon kc p per1 n T -> per_frame oc kc o1 k1 n1 ->
+  @kn R NumR kc (p - 1) <= x < @kn R NumR kc (n + per1) -> @kn R NumR k1 (p - 1) <= x < @kn R NumR k1 (n1 + per1).
+Proof.
+  intros Hcan (_ & _ & _ & _ & Hcan1 & _ & Hs) Hx.
+  rewrite (canon_period k1 p per1 n1 T Hcan1), Hs. rewrite (canon_period kc p per1 n T Hcan) in Hx. exact Hx.
+Qed.
+
+(* c copies of x *)
+Lemma insert_copies_per x : forall (c : nat) (oc : obj R) kc n,
+  wf_obj_R tol oc -> (d < length (o_bases oc))%nat -> nth d (o_bases oc) dflt_basis = mkBasis p kc per1 ->
+  per_canon kc p per1 n T -> per_strict kc per1 ->
+  @kn R NumR kc (p - 1) <= x < @kn R NumR kc (n + per1) ->
+  exists o1 k1, @obj_insert_knots R NumR oc d (repeat x c) = Ok o1 /\ per_frame oc kc o1 k1 (n + c) /\
+    Permutation (pwin k1 per1 (n + c)) (repeat x c ++ pwin kc per1 n) /\
+    forall ts, dom_all tol oc ts -> snapfree tol (pvals kc per1 n T) (nth d ts 0) -> snapfree tol [x; x + T; x - T] (nth d ts 0) ->
+      @obj_eval R NumR tol o1 ts = @obj_eval R NumR tol oc ts /\ snapfree tol (pvals k1 per1 (n + c) T) (nth d ts 0).
+Proof.
+  induction c as [|c IH]; intros oc kc n Hwf Hd Hb Hcan Hstrict Hx.
+  - exists oc, kc. cbn [repeat obj_insert_knots app]. replace (n + 0)%nat with n by lia. split; [reflexivity|]. split.
+    + split; [exact Hwf|]. split; [reflexivity|]. split; [intros; reflexivity|]. split; [exact Hb|]. split; [exact Hcan|].
+      split; [exact Hstrict|reflexivity].
+    + split; [apply Permutation_refl|]. intros ts _ Hsf _. split; [reflexivity|exact Hsf].
+  - destruct (insert_one_per oc kc n x Hwf Hd Hb Hcan Hstrict Hx) as (o1 & k1 & Hok1 & Hf1 & Hp1 & Hev1).
+    pose proof Hf1 as (Hwf1 & Hl1 & Hoth1 & Hb1 & Hcan1 & Hst1 & Hs1).
+    destruct (IH o1 k1 (n + 1)%nat Hwf1 ltac:(lia) Hb1 Hcan1 Hst1 (frame_domain oc kc n o1 k1 (n + 1) x Hcan Hf1 Hx))
+      as (o2 & k2 & Hok2 & Hf2 & Hp2 & Hev2).
+    replace (n + 1 + c)%nat with (n + S c)%nat in * by lia.
+    exists o2, k2. split.
+    + cbn [repeat]. rewrite obj_insert_knots_cons, Hok1. exact Hok2.
+    + split; [apply (per_frame_trans oc kc o1 k1 (n + 1) o2 k2 (n + S c) Hf1 Hf2)|]. split.
+      * cbn [repeat]. rewrite Hp2. rewrite Hp1. cbn [app]. symmetry. apply Permutation_middle.
+      * intros ts Hdom Hsf Hsx.
+        pose proof (Hev1 ts Hdom Hsf Hsx) as A1.
+        assert (Hsf1 : snapfree tol (pvals k1 per1 (n + 1) T) (nth d ts 0)).
+        { intros v Hv. destruct (pvals_perm k1 kc per1 (n + 1) n T x Hp1 v Hv) as [H|H]; [apply Hsf; exact H|apply Hsx; exact H]. }
+        pose proof Hcan as (_ & Hper1 & _).
+        destruct (Hev2 ts (dom_transfer_per oc kc o1 k1 (n + 1) ts Hper1 Hf1 Hdom) Hsf1 Hsx) as (B1 & B2).
+        split; [rewrite B1; exact A1|exact B2].
+Qed.
+End InsertPer.
+
+(* ---------- split_insert in a periodic direction ---------- *)
+Section SplitInsertPer.
+Variable tol : R.
+Hypothesis Htol : 0 < tol.
+Variable d : nat.
+Variables (p per1 : nat) (T : R).
+Variable k : list R.
+Variable n : nat.
+Hypothesis Hcan0 : per_canon k p per1 n T.
+Local Notation b0 := (@mkBasis R p k per1).
+Local Notation s0 := (@kn R NumR k (p - 1)).
+Local Notation e0 := (@kn R NumR k (n + per1)).
+
+Lemma split_insert_per_gen : forall (rest : list R) (oc : obj R) (kc : list R) (nc : nat),
+  wf_obj_R tol oc -> (d < length (o_bases oc))%nat -> nth d (o_bases oc) dflt_basis = mkBasis p kc per1 ->
+  per_canon kc p per1 nc T -> per_strict kc per1 -> @kn R NumR kc (p - 1) = s0 ->
+  Forall (fun x => s0 <= x < e0) rest ->
+  Forall (knot_sep tol k) rest ->
+  exists so kf, @split_insert R NumR tol b0 oc d rest = Ok so /\
+    per_frame tol d p per1 T oc kc so kf (nc + length (ins_list p k rest)) /\
+    Permutation (pwin kf per1 (nc + length (ins_list p k rest))) (ins_list p k rest ++ pwin kc per1 nc) /\
+    forall ts, dom_all tol oc ts -> snapfree tol (pvals kc per1 nc T) (nth d ts 0) ->
+      Forall (fun x => snapfree tol [x; x + T; x - T] (nth d ts 0)) rest ->
+      @obj_eval R NumR tol so ts = @obj_eval R NumR tol oc ts /\
+      snapfree tol (pvals kf per1 (nc + length (ins_list p k rest)) T) (nth d ts 0).
+Proof.
+  pose proof Hcan0 as (HK0 & Hper1 & Hpp & Hlen0 & _).
+  induction rest as [|x rest IH]; intros oc kc nc Hwf Hd Hb Hcan Hstrict Hs Hin Hsep.
+  - exists oc, kc. cbn [ins_list flat_map length app]. replace (nc + 0)%nat with nc by lia. split; [reflexivity|]. split.
+    + split; [exact Hwf|]. split; [reflexivity|]. split; [intros; reflexivity|]. split; [exact Hb|]. split; [exact Hcan|].
+      split; [exact Hstrict|reflexivity].
+    + split; [apply Permutation_refl|]. intros ts _ Hsf _. split; [reflexivity|exact Hsf].
+  - pose proof (Forall_inv Hin) as Hx. pose proof (Forall_inv_tail Hin) as Hin'. cbv beta in Hx.
+    pose proof (Forall_inv Hsep) as Hsx. pose proof (Forall_inv_tail Hsep) as Hsep'.
+    destruct (continuity_exact_per tol k p per1 x HK0 Htol Hsx) as (c & Hc & Hn).
+    { rewrite Hlen0. replace (n + per1 + p - p)%nat with (n + per1)%nat by lia. lra. }
+    assert (Hxc : @kn R NumR kc (p - 1) <= x < @kn R NumR kc (nc + per1)).
+    { rewrite (canon_period kc p per1 nc T Hcan), Hs. rewrite (canon_period k p per1 n T Hcan0) in Hx. exact Hx. }
+    destruct (insert_copies_per tol Htol d p per1 T x (p - mult k x)%nat oc kc nc Hwf Hd Hb Hcan Hstrict Hxc)
+      as (o1 & k1 & Hok1 & Hf1 & Hp1 & Hev1).
+    pose proof Hf1 as (Hwf1 & Hl1 & Hoth1 & Hb1 & Hcan1 & Hst1 & Hs1).
+    destruct (IH o1 k1 (nc + (p - mult k x))%nat Hwf1 ltac:(lia) Hb1 Hcan1 Hst1 ltac:(rewrite Hs1; exact Hs) Hin' Hsep')
+      as (so & kf & Hok2 & Hf2 & Hp2 & Hev2).
+    assert (El : (nc + (p - mult k x) + length (ins_list p k rest) = nc + length (ins_list p k (x :: rest)))%nat).
+    { unfold ins_list. cbn [flat_map]. rewrite app_length, repeat_length. lia. }
+    rewrite El in *.
+    exists so, kf. split.
+    + cbn [split_insert]. rewrite Hc. cbn [b_order]. rewrite Hn, Hok1. exact Hok2.
+    + split; [apply (per_frame_trans tol d p per1 T oc kc o1 k1 _ so kf _ Hf1 Hf2)|]. split.
+      * rewrite Hp2, Hp1. unfold ins_list. cbn [flat_map]. rewrite <- !app_assoc.
+        rewrite (app_assoc (flat_map _ rest)), (app_assoc (repeat x _)). apply Permutation_app_tail. apply Permutation_app_comm.
+      * intros ts Hdom Hsf Hins. pose proof (Forall_inv Hins) as Hix. pose proof (Forall_inv_tail Hins) as Hins'. cbv beta in Hix.
+        destruct (Hev1 ts Hdom Hsf Hix) as (A1 & A2).
+        destruct (Hev2 ts (dom_transfer_per tol d p per1 T oc kc o1 k1 _ ts Hper1 Hf1 Hdom) A2 Hins') as (B1 & B2).
+        split; [rewrite B1; exact A1|exact B2].
+Qed.
+End SplitInsertPer.
+
+(* ------------------------------------------------------------------------------------------------ *)
+(* Part B.5: the roll step on the object: open the periodic direction at a value of full multiplicity *)
+(* ------------------------------------------------------------------------------------------------ *)
+Section RollObj.
+Variable tol : R.
+Hypothesis Htol : 0 < tol.
+Variable so : obj R.
+Hypothesis Hwf : wf_obj_R tol so.
+Variable d : nat.
+Hypothesis Hd : (d < length (o_bases so))%nat.
+Variables (p per1 nf : nat) (T : R) (kf : list R).
+Hypothesis Hb : nth d (o_bases so) dflt_basis = mkBasis p kf per1.
+Hypothesis Hcan : per_canon kf p per1 nf T.
+Variable mu : nat.
+Variable x : R.
+Hypothesis Hfull : forall r, (r < p)%nat -> @kn R NumR kf (mu + r) = x.
+Hypothesis Hmup : (mu + p <= nf + per1)%nat.
+Local Notation ko := (kopen kf p per1 mu).
+Local Notation bopen := (@mkBasis R p ko 0).
+Local Notation Mroll := (@roll_matrix R NumR nf mu).
+Local Notation so' := (@obj_along R NumR so d bopen Mroll).
+Local Notation s := (@kn R NumR kf (p - 1)).
+Local Notation e := (@kn R NumR kf (nf + per1)).
+
+Lemma ro_mu : (mu <= nf)%nat.
+Proof. destruct Hcan as (_ & _ & Hpp & _). lia. Qed.
+
+Lemma ro_period : e = s + T.
+Proof. apply (canon_period kf p per1 nf T Hcan). Qed.
+
+Lemma ro_width : 2 * tol <= T.
+Proof.
+  destruct Hcan as (_ & _ & _ & Hlen & _).
+  destruct Hwf as (HB & _). rewrite Forall_forall in HB. pose proof (HB _ (nth_In _ dflt_basis Hd)) as W. rewrite Hb in W.
+  destruct W as (_ & _ & _ & _ & W). unfold b_start, b_end in W. cbn [b_knots b_order] in W.
+  replace (length kf - p)%nat with (nf + per1)%nat in W by lia. rewrite ro_period in W. lra.
+Qed.
+
+Lemma ro_x_ge : s <= x.
+Proof.
+  destruct Hcan as (HK & _ & Hpp & _). rewrite <- (Hfull (p - 1)%nat) by lia. apply HK. lia.
+Qed.
+
+Lemma ro_x_le : x <= e.
+Proof.
+  destruct Hcan as (HK & _ & Hpp & _). rewrite <- (Hfull (p - 1)%nat) by lia. apply HK. lia.
+Qed.
+
+Lemma bopen_wf : wf_basis_R tol bopen.
+Proof.
+  pose proof Hcan as (_ & Hper1 & Hpp & Hlen & Hreg & _). pose proof ro_mu as Hmu.
+  split; [apply (kopen_sorted kf p per1 nf T Hcan mu Hmu)|]. cbn [b_order b_knots].
+  rewrite (kopen_length kf p per1 nf T Hcan mu Hmu). split; [lia|]. split; [lia|].
+  split; [rewrite (kopen_nfun kf p per1 nf T Hcan mu Hmu) by exact Hmup; lia|].
+  rewrite (kopen_start kf p per1 nf T Hcan mu Hmu x Hfull Hmup), (kopen_end kf p per1 nf T Hcan mu Hmu x Hfull Hmup).
+  pose proof ro_width. lra.
+Qed.
+
+Theorem roll_obj_wf : wf_obj_R tol so'.
+Proof.
+  apply (along_wf tol so Hwf d Hd bopen bopen_wf Mroll).
+  rewrite (kopen_nfun kf p per1 nf T Hcan mu ro_mu); [|exact Hmup]. unfold roll_matrix. rewrite map_length, seq_length. reflexivity.
+Qed.
+
+Lemma ko_snapfree td : snapfree tol (pvals kf per1 nf T) td -> snapfree tol ko td.
+Proof.
+  pose proof Hcan as (_ & Hper1 & Hpp & Hlen & Hreg & _).
+  intros Hsf v Hv. apply Hsf.
+  destruct (kopen_values_win kf p per1 nf T Hcan mu ro_mu Hmup v Hv) as [H|(i & Hi & ->)].
+  - apply (canon_values kf p per1 nf T Hcan). exact H.
+  - apply pvals_in. right. left. replace (@kn R NumR kf i + T - T) with (@kn R NumR kf i) by ring. apply pwin_in; lia.
+Qed.
+
+Theorem roll_obj_eval ts : dom_all tol so ts ->
+  x <= nth d ts 0 < x + T -> snapfree tol (pvals kf per1 nf T) (nth d ts 0) -> nth d ts 0 <> e ->
+  @obj_eval R NumR tol so' ts = @obj_eval R NumR tol so ts.
+Proof.
+  intros Hdom Ht Hsf Hne.
+  pose proof Hcan as (HK & Hper1 & Hpp & Hlen & Hreg & HT & _). pose proof ro_mu as Hmu.
+  pose proof ro_period as Hpe. pose proof ro_width as Hw. pose proof ro_x_ge as Hxs. pose proof ro_x_le as Hxe.
+  set (td := nth d ts 0) in *.
+  pose proof (ko_snapfree td Hsf) as Hsfo.
+  pose proof (kopen_sorted kf p per1 nf T Hcan mu Hmu) as HKo.
+  pose proof (kopen_length kf p per1 nf T Hcan mu Hmu) as HLo.
+  pose proof (kopen_start kf p per1 nf T Hcan mu Hmu x Hfull Hmup) as Hso. unfold b_start in Hso. cbn [b_knots b_order] in Hso.
+  pose proof (kopen_end kf p per1 nf T Hcan mu Hmu x Hfull Hmup) as Heo. unfold b_end in Heo. cbn [b_knots b_order] in Heo.
+  assert (Hsn : @snap1 R NumR kf tol td = td).
+  { apply snapfree_snap; [exact HK|exact Htol|]. apply (snapfree_incl tol _ (pvals kf per1 nf T)); [|exact Hsf].
+    apply (canon_values kf p per1 nf T Hcan). }
+  assert (Hsno : @snap1 R NumR ko tol td = td) by (apply snapfree_snap; assumption).
+  (* td stays tol below the end of the opened domain *)
+  assert (Hbelow : td <= x + T - tol).
+  { assert (Hin : In (x + T) ko).
+    { rewrite <- (kopen_hi kf p per1 nf T Hcan mu Hmu x Hfull Hmup 0%nat) by lia. apply kn_In'. rewrite HLo. lia. }
+    destruct (snapfree_far tol ko td (x + T) Hsfo Hin ltac:(lra)) as [H|H]; lra. }
+  (* td is at least tol away from the end of the periodic domain *)
+  assert (Hend : td <= e - tol \/ e + tol <= td).
+  { assert (Hin : In e (pvals kf per1 nf T)) by (apply (canon_values kf p per1 nf T Hcan); apply kn_In'; lia).
+    destruct (snapfree_far tol _ td e Hsf Hin ltac:(intros E; apply Hne; symmetry; exact E)) as [H|H]; [right|left]; lra. }
+  assert (HN2 : @normalise R NumR ko p 0 tol true td = Some (td, true)).
+  { rewrite (normalise_nonper_true ko p tol td Htol) by (rewrite ?Hso, ?Heo; lra).
+    rewrite Heo. rewrite (Rltb_false (Rabs (td - (x + T))) tol) by (rewrite Rabs_left1 by lra; lra). reflexivity. }
+  assert (Hle : (length kf - p)%nat = (nf + per1)%nat) by lia.
+  assert (Case : exists t1, @normalise R NumR kf p per1 tol true td = Some (t1, true) /\ (t1 = td \/ t1 = td - T) /\ s <= t1 < e).
+  { destruct Hend as [H|H].
+    - exists td. split; [|split; [left; reflexivity|lra]].
+      apply (normalise_per_in kf p per1 tol ltac:(lia) Htol td ltac:(rewrite Hle; lra)).
+    - exists (td - T). split; [|split; [right; reflexivity|lra]].
+      rewrite (normalise_per_wrap kf p per1 tol ltac:(lia) Htol ltac:(rewrite Hle; lra) td ltac:(rewrite Hle; lra)).
+      rewrite Hle. replace (e - s) with T by lra. reflexivity. }
+  destruct Case as (t1 & HN1 & Ht1 & Hr1).
+  apply (along_eval tol Htol so Hwf d Hd bopen bopen_wf Mroll ts Hdom) with (t1 := t1) (t2 := td) (s1 := true) (s2 := true).
+  - unfold in_dom. intros _. cbn [b_knots]. fold td. rewrite Hsno.
+    unfold b_start, b_end. cbn [b_knots b_order]. rewrite Hso, Heo. lra.
+  - rewrite Hb. cbn [b_knots b_order b_per1]. fold td. rewrite Hsn. exact HN1.
+  - cbn [b_knots b_order b_per1]. fold td. rewrite Hsno. exact HN2.
+  - rewrite Hb. cbn [b_knots b_order b_per1].
+    apply (roll_open_row_rel kf p per1 nf T Hcan mu Hmu x Hfull Hmup true td t1); unfold after_start, before_end; try lra; try exact Ht1.
+Qed.
+
+(* ---------- the end of the periodic domain: the periodic object evaluates the LEFT limit there, the opened object
+   (for which it is an interior knot) the right limit; they agree when the seam knot has multiplicity <= p - 1 ---------- *)
+Hypothesis Hstf : per_strict kf per1.
+Hypothesis Hms : (mult kf s <= p - 1)%nat.
+
+Lemma ko_seam_continuous : s < x -> forall i, B true (@kn R NumR ko) (p - 1) i e = B false (@kn R NumR ko) (p - 1) i e.
+Proof.
+  intros Hsx i.
+  pose proof Hcan as (HK & Hper1 & Hpp & Hlen & Hreg & HT & Hseam & Himg). pose proof ro_mu as Hmu.
+  pose proof (kopen_sorted kf p per1 nf T Hcan mu Hmu) as HKo.
+  (* the copies of the start knot: indices per1 .. per1 + m - 1 *)
+  set (m := mult kf s) in *.
+  pose proof (count_bisect kf s HK) as Hcnt. fold m in Hcnt. pose proof (bisect_lr_le kf s HK) as Hle.
+  pose proof (fun j Hj => bisect_window kf s j HK Hj) as W.
+  assert (Hbr : (@py_bisect_right R NumR kf s <= length kf)%nat).
+  { unfold py_bisect_right. destruct (bisect_right_spec (@kn R NumR kf) HK s (length kf)) as (B1 & _). exact B1. }
+  destruct (bisect_right_spec (@kn R NumR kf) HK s (length kf)) as (_ & R2 & R3). cbv zeta in R2, R3. fold (@py_bisect_right R NumR kf s) in R2, R3.
+  set (bl := @py_bisect_left R NumR kf s) in *. set (br := @py_bisect_right R NumR kf s) in *.
+  assert (Hin : (bl <= per1 < br)%nat) by (apply (W per1 ltac:(lia)); exact Hseam).
+  assert (Hbl : bl = per1).
+  { destruct (Nat.eq_dec bl per1) as [E|E]; [exact E|exfalso].
+    assert (C : @kn R NumR kf (per1 - 1) = s) by (apply (W (per1 - 1)%nat ltac:(lia)); lia).
+    unfold per_strict in Hstf. rewrite Hseam in Hstf. lra. }
+  assert (Hbrm : br = (per1 + m)%nat) by lia.
+  assert (Hm1 : (1 <= m)%nat) by lia.
+  assert (Hcopies : forall j, (j < m)%nat -> @kn R NumR kf (per1 + j) = s) by (intros j Hj; apply (W (per1 + j)%nat ltac:(lia)); lia).
+  assert (Habove : s < @kn R NumR kf (per1 + m)) by (apply R3; lia).
+  assert (Hmum : (per1 + m <= mu)%nat).
+  { destruct (Nat.le_gt_cases (per1 + m) mu) as [L|L]; [exact L|exfalso].
+    pose proof (R2 mu ltac:(lia)) as C. rewrite <- (Hfull 0%nat) in Hsx by lia. replace (mu + 0)%nat with mu in Hsx by lia. lra. }
+  set (a := (nf + per1 - 1 - mu)%nat).
+  assert (Ka : forall j, (j <= m + 1)%nat -> @kn R NumR ko (a + j) = @kn R NumR kf (per1 - 1 + j) + T).
+  { intros j Hj. rewrite (kopen_kn kf p per1 nf T Hcan mu Hmu) by (unfold a; lia).
+    replace (mu + (a + j))%nat with ((per1 - 1 + j) + nf)%nat by (unfold a; lia).
+    rewrite (pext_per kf p per1 nf T Hcan). rewrite (pext_agree kf p per1 nf T Hcan) by lia. reflexivity. }
+  assert (Ee : e = s + T) by exact ro_period.
+  assert (E1 : @kn R NumR ko (S a) = e).
+  { replace (S a) with (a + 1)%nat by lia. rewrite Ka by lia. replace (per1 - 1 + 1)%nat with (per1 + 0)%nat by lia. rewrite Hcopies by lia. lra. }
+  rewrite <- E1.
+  apply (B_continuous_at_multiple_knot (@kn R NumR ko) HKo a m Hm1).
+  - replace a with (a + 0)%nat at 1 by lia. rewrite Ka by lia. rewrite E1. replace (per1 - 1 + 0)%nat with (per1 - 1)%nat by lia.
+    unfold per_strict in Hstf. rewrite Hseam in Hstf. lra.
+  - rewrite E1. rewrite Ka by lia. replace (per1 - 1 + m)%nat with (per1 + (m - 1))%nat by lia. rewrite Hcopies by lia. lra.
+  - replace (S (a + m)) with (a + (m + 1))%nat by lia. rewrite !Ka by lia.
+    replace (per1 - 1 + m)%nat with (per1 + (m - 1))%nat by lia. rewrite Hcopies by lia.
+    replace (per1 - 1 + (m + 1))%nat with (per1 + m)%nat by lia. lra.
+  - lia.
+  - unfold a. lia.
+Qed.
+
+Lemma ref_row_side_eq (kk : list R) pp t :
+  (forall i, B true (@kn R NumR kk) (pp - 1) i t = B false (@kn R NumR kk) (pp - 1) i t) ->
+  @ref_row R NumR true kk pp 0 0 t = @ref_row R NumR false kk pp 0 0 t.
+Proof.
+  intros HB. rewrite !ref_row_R. apply map_ext. intros c. apply sumf_ext. intros i _. rewrite HB. reflexivity.
+Qed.
+
+Theorem roll_obj_eval_seam ts : x < e -> dom_all tol so ts ->
+  x <= nth d ts 0 < x + T -> snapfree tol (pvals kf per1 nf T) (nth d ts 0) -> nth d ts 0 = e ->
+  @obj_eval R NumR tol so' ts = @obj_eval R NumR tol so ts.
+Proof.
+  intros Hxlt Hdom Ht Hsf Hte.
+  pose proof Hcan as (HK & Hper1 & Hpp & Hlen & Hreg & HT & _). pose proof ro_mu as Hmu.
+  pose proof ro_period as Hpe. pose proof ro_width as Hw. pose proof ro_x_ge as Hxs. pose proof ro_x_le as Hxe.
+  set (td := nth d ts 0) in *.
+  pose proof (ko_snapfree td Hsf) as Hsfo.
+  pose proof (kopen_sorted kf p per1 nf T Hcan mu Hmu) as HKo.
+  pose proof (kopen_length kf p per1 nf T Hcan mu Hmu) as HLo.
+  pose proof (kopen_start kf p per1 nf T Hcan mu Hmu x Hfull Hmup) as Hso. unfold b_start in Hso. cbn [b_knots b_order] in Hso.
+  pose proof (kopen_end kf p per1 nf T Hcan mu Hmu x Hfull Hmup) as Heo. unfold b_end in Heo. cbn [b_knots b_order] in Heo.
+  assert (Hsn : @snap1 R NumR kf tol td = td).
+  { apply snapfree_snap; [exact HK|exact Htol|]. apply (snapfree_incl tol _ (pvals kf per1 nf T)); [|exact Hsf].
+    apply (canon_values kf p per1 nf T Hcan). }
+  assert (Hsno : @snap1 R NumR ko tol td = td) by (apply snapfree_snap; assumption).
+  assert (Hbelow : td <= x + T - tol).
+  { assert (Hin : In (x + T) ko).
+    { rewrite <- (kopen_hi kf p per1 nf T Hcan mu Hmu x Hfull Hmup 0%nat) by lia. apply kn_In'. rewrite HLo. lia. }
+    destruct (snapfree_far tol ko td (x + T) Hsfo Hin ltac:(lra)) as [Hx|Hx]; lra. }
+  assert (Hsx : s < x) by lra.
+  assert (HN2 : @normalise R NumR ko p 0 tol true td = Some (td, true)).
+  { rewrite (normalise_nonper_true ko p tol td Htol) by (rewrite ?Hso, ?Heo; lra).
+    rewrite Heo. rewrite (Rltb_false (Rabs (td - (x + T))) tol) by (rewrite Rabs_left1 by lra; lra). reflexivity. }
+  assert (Hle : (length kf - p)%nat = (nf + per1)%nat) by lia.
+  assert (HN1 : @normalise R NumR kf p per1 tol true td = Some (td, false)).
+  { rewrite Hte. rewrite <- Hle. apply (normalise_per_end kf p per1 tol ltac:(lia) Htol). rewrite Hle. lra. }
+  apply (along_eval tol Htol so Hwf d Hd bopen bopen_wf Mroll ts Hdom) with (t1 := td) (t2 := td) (s1 := false) (s2 := true).
+  - unfold in_dom. intros _. cbn [b_knots]. fold td. rewrite Hsno.
+    unfold b_start, b_end. cbn [b_knots b_order]. rewrite Hso, Heo. lra.
+  - rewrite Hb. cbn [b_knots b_order b_per1]. fold td. rewrite Hsn. exact HN1.
+  - cbn [b_knots b_order b_per1]. fold td. rewrite Hsno. exact HN2.
+  - rewrite Hb. cbn [b_knots b_order b_per1].
+    rewrite Hte. rewrite (ref_row_side_eq ko p e (ko_seam_continuous Hsx)). rewrite <- Hte.
+    apply (roll_open_row_rel kf p per1 nf T Hcan mu Hmu x Hfull Hmup false td td
+             ltac:(unfold after_start; lra) ltac:(unfold before_end; lra) (or_introl eq_refl)
+             ltac:(unfold after_start; lra) ltac:(unfold before_end; lra)).
+Qed.
+End RollObj.
+
+(* ------------------------------------------------------------------------------------------------ *)
+(* Part B.6 / C: obj_split in a periodic direction                                                   *)
+(* ------------------------------------------------------------------------------------------------ *)
+(* a value of full multiplicity p in a sorted list: the window found by bisect_left *)
+Lemma full_mult_window (kf : list R) p x : sorted (@kn R NumR kf) -> mult kf x = p ->
+  let mu := @py_bisect_left R NumR kf x in
+  (mu + p <= length kf)%nat /\ (forall r, (r < p)%nat -> @kn R NumR kf (mu + r) = x) /\ @py_bisect_right R NumR kf x = (mu + p)%nat.
+Proof.
+  intros HK Hm. cbv zeta. rewrite (count_bisect kf x HK) in Hm. pose proof (bisect_lr_le kf x HK) as Hle.
+  assert (Hbr : (@py_bisect_right R NumR kf x <= length kf)%nat).
+  { unfold py_bisect_right. destruct (bisect_right_spec (@kn R NumR kf) HK x (length kf)) as (B1 & _). exact B1. }
+  split; [lia|]. split; [|lia]. intros r Hr. apply (bisect_window kf x (@py_bisect_left R NumR kf x + r) HK); lia.
+Qed.
+
+(* A, in one statement: a canonical regular periodic knot list in which the value x of [start, end) has multiplicity
+   exactly p (as after split_insert), mu = bisect_left(knots, x): roll(mu) followed by dropping the last per1 knots gives a
+   sorted open knot vector of n + p knots, the window mu .. mu+n+p-1 of the periodic extension, clamped at x and x + T
+   (domain [x, x + T], n functions), and the periodic and the open rows are related by roll_matrix n mu. *)
+Theorem roll_open_basis (k : list R) p per1 n T x : per_canon k p per1 n T ->
+  @kn R NumR k (p - 1) <= x < @kn R NumR k (n + per1) -> mult k x = p ->
+  let mu := @py_bisect_left R NumR k x in let ko := kopen k p per1 mu in
+  (mu + p <= n + per1)%nat /\ length ko = (n + p)%nat /\ sorted (@kn R NumR ko) /\
+  (forall j, (j < n + p)%nat -> nth j ko 0 = pext k n T (mu + j)) /\
+  (forall j, (j < p)%nat -> @kn R NumR ko j = x /\ @kn R NumR ko (n + j) = x + T) /\
+  @b_start R NumR (mkBasis p ko 0) = x /\ @b_end R NumR (mkBasis p ko 0) = x + T /\ @b_nfun R (mkBasis p ko 0) = n /\
+  forall side t t', after_start side x t -> before_end side t (x + T) -> t' = t \/ t' = t - T ->
+    after_start side (@kn R NumR k (p - 1)) t' -> before_end side t' (@kn R NumR k (n + per1)) ->
+    row_rel (@ref_row R NumR side k p per1 0 t') (@ref_row R NumR side ko p 0 0 t) (@roll_matrix R NumR n mu).
+Proof.
+  intros Hcan Hx Hm. cbv zeta. pose proof Hcan as (HK & Hper1 & Hpp & Hlen & _).
+  destruct (full_mult_window k p x HK Hm) as (A1 & A2 & _). cbv zeta in A1, A2.
+  set (mu := @py_bisect_left R NumR k x) in *.
+  assert (Hmup : (mu + p <= n + per1)%nat).
+  { assert (L : @kn R NumR k (mu + (p - 1)) < @kn R NumR k (n + per1)) by (rewrite A2 by lia; lra).
+    apply sorted_lt_idx in L; [lia|exact HK]. }
+  assert (Hmu : (mu <= n)%nat) by lia.
+  split; [exact Hmup|]. split; [apply (kopen_length k p per1 n T Hcan mu Hmu)|].
+  split; [apply (kopen_sorted k p per1 n T Hcan mu Hmu)|].
+  split; [intros j Hj; apply (kopen_nth k p per1 n T Hcan mu Hmu j Hj)|].
+  split; [intros j Hj; split; [apply (kopen_lo k p per1 n T Hcan mu Hmu x A2 Hmup j Hj)|apply (kopen_hi k p per1 n T Hcan mu Hmu x A2 Hmup j Hj)]|].
+  split; [apply (kopen_start k p per1 n T Hcan mu Hmu x A2 Hmup)|].
+  split; [apply (kopen_end k p per1 n T Hcan mu Hmu x A2 Hmup)|].
+  split; [apply (kopen_nfun k p per1 n T Hcan mu Hmu Hmup)|].
+  intros side t t'. apply (roll_open_row_rel k p per1 n T Hcan mu Hmu x A2 Hmup side t t').
+Qed.
+
+Lemma sorted_gap_last tol a b : a <= b -> forall l, Sorted (gap tol) (l ++ [a]) -> Sorted (gap tol) (l ++ [b]).
+Proof.
+  intros Hab. induction l as [|x l IH]; intros HS; cbn [app] in *.
+  - constructor; constructor.
+  - apply Sorted_inv in HS. destruct HS as [HS HR]. constructor; [apply IH; exact HS|].
+    destruct l as [|y l]; cbn [app] in *.
+    + inversion HR; subst. constructor. unfold gap in *. lra.
+    + inversion HR; subst. constructor. assumption.
+Qed.
+
+Lemma ssorted_gap_in tol l u v : 0 < tol -> StronglySorted (gap tol) l -> In u l -> In v l -> u = v \/ u + 2 * tol <= v \/ v + 2 * tol <= u.
+Proof.
+  intros Htol HS Hu Hv. destruct (In_nth l u 0 Hu) as (i & Hi & <-). destruct (In_nth l v 0 Hv) as (j & Hj & <-).
+  destruct (lt_eq_lt_dec i j) as [[L|E]|L].
+  - right. left. apply (ssorted_nth _ _ 0 HS i j). lia.
+  - left. subst. reflexivity.
+  - right. right. apply (ssorted_nth _ _ 0 HS j i). lia.
+Qed.
+
+(* the parameters for which the statements are proved: the d-th parameter is not strictly within tol of a knot image
+   (a knot of one period, a split value, or one of these shifted by +T or -T) without being equal to it, so that
+   snap() leaves it alone on every knot vector that occurs *)
+Definition per_param_ok (tol : R) (k : list R) (per1 n : nat) (T : R) (ks : list R) (t : R) : Prop :=
+  snapfree tol (pvals k per1 n T) t /\ Forall (fun x => snapfree tol [x; x + T; x - T] t) ks.
+
+Record psplit_hyps (tol : R) (o : obj R) (d p per1 n : nat) (T : R) (k : list R) (x0 : R) (rest : list R) : Prop := {
+  ph_tol : 0 < tol;
+  ph_wf : wf_obj_R tol o;
+  ph_dir : (d < length (o_bases o))%nat;
+  (* direction d is periodic, of order p and continuity per1 - 1, with n functions, period T, regular canonical knots *)
+  ph_basis : nth d (o_bases o) dflt_basis = mkBasis p k per1;
+  ph_canon : per_canon k p per1 n T;
+  (* the ghost knot below the start knot is strictly smaller *)
+  ph_strict : per_strict k per1;
+  (* start <= x0, then the split values and the end of the domain increase, consecutive ones at least 2*tol apart *)
+  ph_first : @kn R NumR k (p - 1) <= x0;
+  ph_spaced : Sorted (gap tol) (x0 :: rest ++ [@kn R NumR k (n + per1)]);
+  (* no knot other than x itself in the window [x - tol, x + tol) that continuity() counts *)
+  ph_sep : Forall (knot_sep tol k) (x0 :: rest);
+  (* a split value is not already a knot of multiplicity > p *)
+  ph_mult : Forall (fun x => (mult k x <= p)%nat) (x0 :: rest)
+}.
+
+Section PSplit.
+Variables (tol : R) (o : obj R) (d p per1 n : nat) (T : R) (k : list R) (x0 : R) (rest : list R).
+Hypothesis H : psplit_hyps tol o d p per1 n T k x0 rest.
+Local Notation ks := (x0 :: rest).
+Local Notation s := (@kn R NumR k (p - 1)).
+Local Notation e := (@kn R NumR k (n + per1)).
+
+Let Htol := ph_tol _ _ _ _ _ _ _ _ _ _ H.
+Let Hwf := ph_wf _ _ _ _ _ _ _ _ _ _ H.
+Let Hd := ph_dir _ _ _ _ _ _ _ _ _ _ H.
+Let Hb0 := ph_basis _ _ _ _ _ _ _ _ _ _ H.
+Let Hcan := ph_canon _ _ _ _ _ _ _ _ _ _ H.
+Let Hstrict := ph_strict _ _ _ _ _ _ _ _ _ _ H.
+
+Lemma ph_ssorted : StronglySorted (gap tol) (x0 :: rest ++ [e]).
+Proof.
+  apply Sorted_StronglySorted; [|exact (ph_spaced _ _ _ _ _ _ _ _ _ _ H)].
+  intros a b c Hab Hbc. unfold gap in *. lra.
+Qed.
+
+Lemma ph_gaps : StronglySorted (gap tol) ks.
+Proof. pose proof ph_ssorted as S. change (x0 :: rest ++ [e]) with (ks ++ [e]) in S. destruct (ssorted_app _ _ _ S) as (A & _). exact A. Qed.
+
+Lemma ph_incr : StronglySorted Rlt ks.
+Proof. apply (ssorted_impl (gap tol)); [|exact ph_gaps]. intros a b G. unfold gap in G. lra. Qed.
+
+Lemma ph_inside x : In x ks -> s <= x /\ x + 2 * tol <= e.
+Proof.
+  intros Hx. pose proof ph_ssorted as S. change (x0 :: rest ++ [e]) with (ks ++ [e]) in S.
+  destruct (ssorted_app _ _ _ S) as (A & _ & C). split.
+  - pose proof (ph_first _ _ _ _ _ _ _ _ _ _ H) as F. destruct Hx as [<-|Hx]; [exact F|].
+    destruct (StronglySorted_inv A) as [_ A2]. rewrite Forall_forall in A2. pose proof (A2 x Hx) as G. unfold gap in G. lra.
+  - apply (C x e Hx). left. reflexivity.
+Qed.
+
+Lemma ph_period : e = s + T.
+Proof. apply (canon_period k p per1 n T Hcan). Qed.
+
+(* ---------- 1. split_insert on the periodic object ---------- *)
+Lemma psplit_insert : exists so kf nf,
+  @split_insert R NumR tol (mkBasis p k per1) o d ks = Ok so /\
+  per_frame tol d p per1 T o k so kf nf /\
+  Permutation (pwin kf per1 nf) (ins_list p k ks ++ pwin k per1 n) /\
+  Forall (fun x => mult kf x = p) ks /\
+  forall ts, dom_all tol o ts -> per_param_ok tol k per1 n T ks (nth d ts 0) ->
+    @obj_eval R NumR tol so ts = @obj_eval R NumR tol o ts /\ snapfree tol (pvals kf per1 nf T) (nth d ts 0).
+Proof.
+  destruct (split_insert_per_gen tol Htol d p per1 T k n Hcan ks o k n Hwf Hd Hb0 Hcan Hstrict eq_refl)
+    as (so & kf & Hok & Hf & Hperm & Hev).
+  { apply Forall_forall. intros x Hx. destruct (ph_inside x Hx). lra. }
+  { exact (ph_sep _ _ _ _ _ _ _ _ _ _ H). }
+  exists so, kf, (n + length (ins_list p k ks))%nat. split; [exact Hok|]. split; [exact Hf|]. split; [exact Hperm|]. split.
+  - pose proof Hf as (_ & _ & _ & _ & Hcanf & Hstf & Hsf).
+    pose proof (ph_mult _ _ _ _ _ _ _ _ _ _ H) as Hm. rewrite Forall_forall in *. intros x Hx.
+    destruct (ph_inside x Hx) as [I1 I2].
+    rewrite (mult_window kf p per1 _ T Hcanf Hstf x) by (rewrite (canon_period kf p per1 _ T Hcanf), Hsf, <- ph_period; lra).
+    rewrite (Permutation_count_occ Req_EM_T _ _) in Hperm. rewrite (Hperm x). rewrite count_occ_app.
+    rewrite (count_ins_in p k ks x ph_incr Hx).
+    rewrite <- (mult_window k p per1 n T Hcan Hstrict x) by lra. pose proof (Hm x Hx). lia.
+  - intros ts Hdom [P1 P2]. apply (Hev ts Hdom P1 P2).
+Qed.
+
+(* ---------- 2. the opening: mu = bisect_left(knots, x0), roll, truncate ---------- *)
+Definition opened (so : obj R) (kf : list R) (nf : nat) : obj R :=
+  let mu := @py_bisect_left R NumR kf x0 in
+  @obj_along R NumR so d (mkBasis p (kopen kf p per1 mu) 0) (@roll_matrix R NumR nf mu).
+
+Lemma open_facts so kf nf : per_frame tol d p per1 T o k so kf nf -> mult kf x0 = p ->
+  let mu := @py_bisect_left R NumR kf x0 in
+  (mu + p <= nf + per1)%nat /\ (forall r, (r < p)%nat -> @kn R NumR kf (mu + r) = x0).
+Proof.
+  intros (_ & _ & _ & _ & Hcanf & _ & Hsf) Hm. cbv zeta.
+  pose proof Hcanf as (HKf & Hper1 & Hpp & Hlenf & _).
+  destruct (full_mult_window kf p x0 HKf Hm) as (A1 & A2 & _). cbv zeta in A1, A2. split; [|exact A2].
+  destruct (ph_inside x0 (or_introl eq_refl)) as [I1 I2].
+  assert (L : @kn R NumR kf (@py_bisect_left R NumR kf x0 + (p - 1)) < @kn R NumR kf (nf + per1)).
+  { rewrite A2 by lia. rewrite (canon_period kf p per1 nf T Hcanf), Hsf, <- ph_period. lra. }
+  apply sorted_lt_idx in L; [lia|exact HKf].
+Qed.
+
+Lemma psplit_unfold f so kf nf :
+  @split_insert R NumR tol (mkBasis p k per1) o d ks = Ok so ->
+  nth d (o_bases so) dflt_basis = mkBasis p kf per1 -> length kf = (nf + per1 + p)%nat ->
+  @obj_split R NumR (S f) tol o d ks
+  = match rest with [] => Ok [opened so kf nf] | _ :: _ => @obj_split R NumR f tol (opened so kf nf) d rest end.
+Proof.
+  intros Hok Hbs Hlenf. pose proof Hcan as (_ & Hper1 & _).
+  cbn [obj_split]. change (@mkBasis R 0 [] 0) with dflt_basis. rewrite Hb0, Hok, Hbs. cbn [b_per1 b_knots b_order hd tl].
+  destruct (Nat.eqb_spec per1 0) as [C|_]; [lia|]. cbn [negb].
+  assert (En : @b_nfun R (mkBasis p kf per1) = nf) by (unfold b_nfun; cbn [b_knots b_order b_per1]; lia).
+  rewrite En. unfold opened, kopen, krolled. cbv zeta. destruct rest; reflexivity.
+Qed.
+
+(* the opened object *)
+Lemma opened_props so kf nf : per_frame tol d p per1 T o k so kf nf -> mult kf x0 = p ->
+  let o1 := opened so kf nf in let b1 := nth d (o_bases o1) dflt_basis in
+  wf_obj_R tol o1 /\ length (o_bases o1) = length (o_bases o) /\
+  (forall i, i <> d -> nth i (o_bases o1) dflt_basis = nth i (o_bases o) dflt_basis) /\
+  b1 = mkBasis p (kopen kf p per1 (@py_bisect_left R NumR kf x0)) 0 /\
+  @b_start R NumR b1 = x0 /\ @b_end R NumR b1 = x0 + T.
+Proof.
+  intros Hf Hm. destruct (open_facts so kf nf Hf Hm) as [Hmup Hfull]. cbv zeta in Hmup, Hfull.
+  pose proof Hf as (Hwfs & Hls & Hoths & Hbs & Hcanf & Hstf & Hsf).
+  assert (Hds : (d < length (o_bases so))%nat) by (rewrite Hls; exact Hd).
+  assert (Hmu : (@py_bisect_left R NumR kf x0 <= nf)%nat) by (destruct Hcanf as (_ & _ & Hpp & _); lia).
+  cbv zeta. unfold opened. cbv zeta.
+  split; [apply (roll_obj_wf tol so Hwfs d Hds p per1 nf T kf Hbs Hcanf _ x0 Hfull Hmup)|].
+  unfold obj_along. cbn [o_bases]. split; [rewrite upd_length; exact Hls|].
+  split; [intros i Hi; rewrite upd_nth_other by exact Hi; apply Hoths; exact Hi|].
+  rewrite upd_nth_same by exact Hds. split; [reflexivity|].
+  split; [apply (kopen_start kf p per1 nf T Hcanf _ Hmu x0 Hfull Hmup)|apply (kopen_end kf p per1 nf T Hcanf _ Hmu x0 Hfull Hmup)].
+Qed.
+
+Lemma dom_all_of_others ts : 
+  (forall i, (i < length (o_bases o))%nat -> i <> d -> in_dom tol (nth i (o_bases o) dflt_basis) (nth i ts 0)) -> dom_all tol o ts.
+Proof.
+  intros Hdom i Hi. destruct (Nat.eq_dec i d) as [->|Hne]; [|apply Hdom; assumption].
+  rewrite Hb0. unfold in_dom. cbn [b_per1]. pose proof Hcan as (_ & Hper1 & _). intros E. lia.
+Qed.
+
+(* evaluation of the opened object: one full period starting at x0, up to (excluding) its end; at the end of the periodic
+   domain itself the periodic object evaluates the LEFT limit: equality there needs a seam knot of multiplicity <= p - 1 *)
+Lemma opened_eval so kf nf : per_frame tol d p per1 T o k so kf nf ->
+  Permutation (pwin kf per1 nf) (ins_list p k ks ++ pwin k per1 n) -> mult kf x0 = p ->
+  (forall ts, dom_all tol o ts -> per_param_ok tol k per1 n T ks (nth d ts 0) ->
+     @obj_eval R NumR tol so ts = @obj_eval R NumR tol o ts /\ snapfree tol (pvals kf per1 nf T) (nth d ts 0)) ->
+  forall ts, dom_all tol o ts -> per_param_ok tol k per1 n T ks (nth d ts 0) ->
+    x0 <= nth d ts 0 < x0 + T -> (nth d ts 0 = e -> (mult k s <= p - 1)%nat) ->
+    @obj_eval R NumR tol (opened so kf nf) ts = @obj_eval R NumR tol o ts.
+Proof.
+  intros Hf Hperm Hm Hev ts Hdom Hpar Ht Hseam. destruct (open_facts so kf nf Hf Hm) as [Hmup Hfull]. cbv zeta in Hmup, Hfull.
+  pose proof Hf as (Hwfs & Hls & Hoths & Hbs & Hcanf & Hstf & Hsf).
+  assert (Hds : (d < length (o_bases so))%nat) by (rewrite Hls; exact Hd).
+  destruct (Hev ts Hdom Hpar) as [E1 E2]. rewrite <- E1.
+  pose proof Hcan as (_ & Hper1 & _).
+  assert (Hef : @kn R NumR kf (nf + per1) = e) by (rewrite (canon_period kf p per1 nf T Hcanf), Hsf, <- ph_period; reflexivity).
+  pose proof (dom_transfer_per tol d p per1 T o k so kf nf ts Hper1 Hf Hdom) as Hdoms.
+  destruct (Req_dec (nth d ts 0) e) as [Ee|Ne].
+  - (* the seam *)
+    pose proof ph_period as Hpe. pose proof (Hseam Ee) as Hms.
+    assert (Hx0 : s < x0) by lra.
+    destruct (ph_inside x0 (or_introl eq_refl)) as [I1 I2].
+    assert (Hnot : ~ In s ks).
+    { intros [E0|Hr]; [lra|]. pose proof ph_gaps as G. destruct (StronglySorted_inv G) as [_ G2]. rewrite Forall_forall in G2.
+      pose proof (G2 s Hr) as G3. unfold gap in G3. lra. }
+    assert (Hmsf : (mult kf (@kn R NumR kf (p - 1)) <= p - 1)%nat).
+    { rewrite Hsf. rewrite (mult_window kf p per1 nf T Hcanf Hstf s) by (rewrite Hsf, Hef; lra).
+      rewrite (Permutation_count_occ Req_EM_T _ _) in Hperm. rewrite (Hperm s). rewrite count_occ_app.
+      rewrite (count_ins_notin p k ks s Hnot). rewrite <- (mult_window k p per1 n T Hcan Hstrict s) by lra. exact Hms. }
+    apply (roll_obj_eval_seam tol Htol so Hwfs d Hds p per1 nf T kf Hbs Hcanf _ x0 Hfull Hmup Hstf Hmsf ts);
+      [rewrite Hef; lra|exact Hdoms|exact Ht|exact E2|rewrite Hef; exact Ee].
+  - apply (roll_obj_eval tol Htol so Hwfs d Hds p per1 nf T kf Hbs Hcanf _ x0 Hfull Hmup ts Hdoms Ht E2).
+    rewrite Hef. exact Ne.
+Qed.
+
+(* ---------- 3. the opened object satisfies the hypotheses of the non-periodic theorem for the remaining values ---------- *)
+Lemma opened_split_hyps so kf nf : per_frame tol d p per1 T o k so kf nf ->
+  Permutation (pwin kf per1 nf) (ins_list p k ks ++ pwin k per1 n) ->
+  Forall (fun x => mult kf x = p) ks ->
+  split_hyps tol (opened so kf nf) d p (kopen kf p per1 (@py_bisect_left R NumR kf x0)) rest.
+Proof.
+  intros Hf Hperm Hmall.
+  assert (Hm : mult kf x0 = p) by (rewrite Forall_forall in Hmall; apply Hmall; left; reflexivity).
+  destruct (open_facts so kf nf Hf Hm) as [Hmup Hfull]. cbv zeta in Hmup, Hfull.
+  destruct (opened_props so kf nf Hf Hm) as (Owf & Olen & Ooth & Ob & Os & Oe). cbv zeta in *.
+  pose proof Hf as (Hwfs & Hls & Hoths & Hbs & Hcanf & Hstf & Hsf).
+  pose proof Hcanf as (HKf & Hper1 & Hpp & Hlenf & Hregf & HT & Hseamf & Himgf).
+  set (mu := @py_bisect_left R NumR kf x0) in *. set (ko := kopen kf p per1 mu) in *.
+  assert (Hmu : (mu <= nf)%nat) by lia.
+  assert (Est : st p ko = x0) by (rewrite Ob in Os; exact Os).
+  assert (Een : en p ko = x0 + T) by (rewrite Ob in Oe; exact Oe).
+  assert (Hef : @kn R NumR kf (nf + per1) = e) by (rewrite (canon_period kf p per1 nf T Hcanf), Hsf, <- ph_period; reflexivity).
+  pose proof (kopen_sorted kf p per1 nf T Hcanf mu Hmu) as HKo. fold ko in HKo.
+  pose proof (kopen_length kf p per1 nf T Hcanf mu Hmu) as HLo. fold ko in HLo.
+  constructor.
+  - exact Htol.
+  - exact Owf.
+  - rewrite Olen. exact Hd.
+  - exact Ob.
+  - rewrite Est, Een. destruct (ph_inside x0 (or_introl eq_refl)) as [I1 I2].
+    change (x0 :: rest ++ [x0 + T]) with ((x0 :: rest) ++ [x0 + T]).
+    apply (sorted_gap_last tol e (x0 + T)); [rewrite ph_period; lra|]. exact (ph_spaced _ _ _ _ _ _ _ _ _ _ H).
+  - (* separation *)
+    pose proof (ph_sep _ _ _ _ _ _ _ _ _ _ H) as Hsep. rewrite Forall_forall in *. intros y Hy v Hv.
+    destruct (ph_inside y (or_intror Hy)) as [Y1 Y2]. destruct (ph_inside x0 (or_introl eq_refl)) as [X1 X2].
+    assert (Yx : x0 + 2 * tol <= y).
+    { pose proof ph_gaps as G. destruct (StronglySorted_inv G) as [_ G2]. rewrite Forall_forall in G2. apply (G2 y Hy). }
+    pose proof ph_period as Hpe.
+    destruct (kopen_values_win kf p per1 nf T Hcanf mu Hmu Hmup v Hv) as [Hin|(i & Hi & ->)].
+    + apply (canon_values kf p per1 nf T Hcanf) in Hin. apply pvals_in in Hin.
+      destruct Hin as [W|[W|W]].
+      * apply (Permutation_in _ Hperm) in W. apply in_app_or in W. destruct W as [W|W].
+        -- unfold ins_list in W. apply in_flat_map in W. destruct W as (z & Hz & Hr). apply repeat_spec in Hr. subst v.
+           destruct (ssorted_gap_in tol ks z y Htol ph_gaps Hz (or_intror Hy)) as [E|[E|E]]; [left; exact E|right; left; lra|right; right; lra].
+        -- apply (Hsep y (or_intror Hy)). apply (pwin_sub k per1 n). exact W.
+      * destruct (pwin_range_strict kf p per1 nf T Hcanf Hstf _ W) as [R1 R2]. rewrite Hsf in R1. right. right. lra.
+      * destruct (pwin_range_strict kf p per1 nf T Hcanf Hstf _ W) as [R1 R2]. rewrite Hef in R2. right. left. lra.
+    + pose proof (HKf per1 i ltac:(lia)) as L. rewrite Hseamf, Hsf in L. right. right. lra.
+  - (* multiplicities *)
+    rewrite Forall_forall in *. intros y Hy. destruct (ph_inside y (or_intror Hy)) as [Y1 Y2].
+    pose proof (Hmall y (or_intror Hy)) as Hmy. rewrite (count_bisect kf y HKf) in Hmy.
+    rewrite (count_bisect ko y HKo).
+    assert (Hbr : (@py_bisect_right R NumR ko y <= length ko)%nat).
+    { unfold py_bisect_right. destruct (bisect_right_spec (@kn R NumR ko) HKo y (length ko)) as (B1 & _). exact B1. }
+    destruct (Nat.le_gt_cases (@py_bisect_right R NumR ko y) (@py_bisect_left R NumR ko y)) as [L|L]; [lia|].
+    assert (Key : forall j, (@py_bisect_left R NumR ko y <= j < @py_bisect_right R NumR ko y)%nat ->
+              (@py_bisect_left R NumR kf y <= mu + j < @py_bisect_right R NumR kf y)%nat).
+    { intros j Hj. assert (Hjl : (j < length ko)%nat) by lia.
+      pose proof (proj1 (bisect_window ko y j HKo Hjl) Hj) as Ej. rewrite HLo in Hjl.
+      unfold ko in Ej. rewrite (kopen_kn kf p per1 nf T Hcanf mu Hmu j Hjl) in Ej.
+      assert (Lt : pext kf nf T (mu + j) < pext kf nf T (nf + per1)).
+      { rewrite Ej. rewrite (pext_agree kf p per1 nf T Hcanf) by lia. rewrite Hef. lra. }
+      apply sorted_lt_idx in Lt; [|apply (pext_sorted kf p per1 nf T Hcanf)].
+      rewrite (pext_agree kf p per1 nf T Hcanf) in Ej by lia.
+      apply (bisect_window kf y (mu + j) HKf); [lia|exact Ej]. }
+    pose proof (Key (@py_bisect_left R NumR ko y) ltac:(lia)). pose proof (Key (@py_bisect_right R NumR ko y - 1)%nat ltac:(lia)). lia.
+Qed.
+End PSplit.
+
+(* ---------- the main statements ---------- *)
+(* the end points of the pieces: one full period starting at the first split value *)
+Definition pends (x0 T : R) (rest : list R) : list R := x0 :: rest ++ [x0 + T].
+
+(* the condition on the parameter tuple ts for piece j *)
+Definition ppiece_param (tol : R) (o : obj R) (d p per1 n : nat) (T : R) (k : list R) (x0 : R) (rest : list R) (j : nat) (ts : list R) : Prop :=
+  (* inside the domain of o in the other directions *)
+  (forall i, (i < length (o_bases o))%nat -> i <> d -> in_dom tol (nth i (o_bases o) dflt_basis) (nth i ts 0)) /\
+  (* the d-th parameter lies in the interval of piece j ... *)
+  nth j (pends x0 T rest) 0 <= nth d ts 0 <= nth (S j) (pends x0 T rest) 0 /\
+  (* ... at least 2*tol below its end; in the last piece: strictly below the end x0 + T of the period *)
+  (nth d ts 0 <= nth (S j) (pends x0 T rest) 0 - 2 * tol \/ (j = length rest /\ nth d ts 0 < x0 + T)) /\
+  (* ... is not moved by snap() on any of the knot vectors that occur *)
+  per_param_ok tol k per1 n T (x0 :: rest) (nth d ts 0) /\
+  (* ... and if it is the end of the periodic domain (where the periodic object evaluates the LEFT limit, the piece the right
+     limit), the seam knot has multiplicity <= p - 1 *)
+  (nth d ts 0 = @kn R NumR k (n + per1) -> (mult k (@kn R NumR k (p - 1)) <= p - 1)%nat).
+
+Lemma per_param_to_param_ok tol k per1 n T ks t kk y : per_param_ok tol k per1 n T ks t -> In y ks -> param_ok tol kk y t.
+Proof.
+  intros [_ P] Hy. rewrite Forall_forall in P. destruct (P y Hy y (or_introl eq_refl)) as [E|E].
+  - right. left. symmetry. exact E.
+  - right. right. exact E.
+Qed.
+
+(* C07, periodic direction: obj_split returns S (length rest) pieces tiling [x0, x0 + T] with the cut points rest; every
+   piece is well formed, non-periodic in direction d, and evaluates to the original periodic object on its interval *)
+Theorem obj_split_periodic tol (o : obj R) d p per1 n T k x0 rest fuel :
+  psplit_hyps tol o d p per1 n T k x0 rest -> (2 <= fuel)%nat ->
+  exists pieces, @obj_split R NumR fuel tol o d (x0 :: rest) = Ok pieces /\ length pieces = S (length rest) /\
+    forall j, (j <= length rest)%nat ->
+      let pj := nth j pieces o in let bj := nth d (o_bases pj) dflt_basis in
+      wf_obj_R tol pj /\ length (o_bases pj) = length (o_bases o) /\
+      (forall i, i <> d -> nth i (o_bases pj) dflt_basis = nth i (o_bases o) dflt_basis) /\
+      b_order bj = p /\ b_per1 bj = 0%nat /\
+      @b_start R NumR bj = nth j (pends x0 T rest) 0 /\ @b_end R NumR bj = nth (S j) (pends x0 T rest) 0 /\
+      nth j (pends x0 T rest) 0 + 2 * tol <= nth (S j) (pends x0 T rest) 0 /\
+      forall ts, ppiece_param tol o d p per1 n T k x0 rest j ts -> @obj_eval R NumR tol pj ts = @obj_eval R NumR tol o ts.
+Proof.
+  intros H Hfuel. destruct fuel as [|[|f]]; [lia|lia|].
+  pose proof (ph_tol _ _ _ _ _ _ _ _ _ _ H) as Htol. pose proof (ph_canon _ _ _ _ _ _ _ _ _ _ H) as Hcan.
+  destruct (psplit_insert tol o d p per1 n T k x0 rest H) as (so & kf & nf & Hok & Hf & Hperm & Hmall & Hev).
+  assert (Hm : mult kf x0 = p) by (rewrite Forall_forall in Hmall; apply Hmall; left; reflexivity).
+  pose proof Hf as (Hwfs & Hls & Hoths & Hbs & Hcanf & Hstf & Hsf).
+  pose proof Hcanf as (HKf & Hper1 & Hpp & Hlenf & _).
+  pose proof (psplit_unfold tol o d p per1 n T k x0 rest H (S f) so kf nf Hok Hbs Hlenf) as Hun.
+  destruct (opened_props tol o d p per1 n T k x0 rest H so kf nf Hf Hm) as (Owf & Olen & Ooth & Ob & Os & Oe). cbv zeta in *.
+  pose proof (opened_split_hyps tol o d p per1 n T k x0 rest H so kf nf Hf Hperm Hmall) as Hsh.
+  pose proof (opened_eval tol o d p per1 n T k x0 rest H so kf nf Hf Hperm Hm Hev) as Hoe.
+  set (o1 := opened d p per1 x0 so kf nf) in *. set (ko := kopen kf p per1 (@py_bisect_left R NumR kf x0)) in *.
+  assert (Est : st p ko = x0) by (rewrite Ob in Os; exact Os).
+  assert (Een : en p ko = x0 + T) by (rewrite Ob in Oe; exact Oe).
+  assert (Hends : ends p ko rest = pends x0 T rest) by (unfold ends, pends; rewrite Est, Een; reflexivity).
+  destruct rest as [|y rest'] eqn:Er.
+  - (* a single split value: one open object *)
+    exists [o1]. split; [exact Hun|]. split; [reflexivity|].
+    intros j Hj. cbn [length] in Hj. assert (j = 0%nat) by lia. subst j. cbv zeta. cbn [nth pends app].
+    split; [exact Owf|]. split; [exact Olen|]. split; [exact Ooth|]. rewrite Ob. cbn [b_order b_per1].
+    split; [reflexivity|]. split; [reflexivity|]. rewrite <- Ob. split; [exact Os|]. split; [exact Oe|].
+    split.
+    { destruct (sh_wf _ _ _ _ _ _ Hsh) as (HB & _). rewrite Forall_forall in HB.
+      pose proof (HB _ (nth_In _ dflt_basis (sh_dir _ _ _ _ _ _ Hsh))) as W. destruct W as (_ & _ & _ & _ & W).
+      fold o1 in W. rewrite Os, Oe in W. lra. }
+    intros ts (Hdom & Ht & Hside & Hpar & Hne). cbn [nth pends app length] in Ht, Hside.
+    apply Hoe; [apply (dom_all_of_others tol o d p per1 n T k x0 [] H ts Hdom)|exact Hpar| |exact Hne].
+    destruct Hside as [L|[_ L]]; lra.
+  - (* several split values: the non-periodic branch on the opened object *)
+    assert (Hun' : @obj_split R NumR (S (S f)) tol o d (x0 :: y :: rest') = @obj_split R NumR (S f) tol o1 d (y :: rest')) by exact Hun.
+    rewrite <- Er in *.
+    destruct (obj_split_nonperiodic tol o1 d p ko rest Hsh (S f) ltac:(lia)) as (pieces & E & L & P).
+    exists pieces. split; [rewrite Hun'; exact E|]. split; [exact L|].
+    intros j Hj. cbv zeta. rewrite (nth_indep pieces o o1) by lia.
+    destruct (P j Hj) as (P1 & P2 & P3 & P4 & P5 & P6 & P7 & P8 & P9). cbv zeta in *.
+    rewrite Hends in P6, P7, P8.
+    split; [exact P1|]. split; [rewrite P2; exact Olen|].
+    split; [intros i Hi; rewrite (P3 i Hi); apply Ooth; exact Hi|].
+    split; [exact P4|]. split; [exact P5|]. split; [exact P6|]. split; [exact P7|]. split; [exact P8|].
+    intros ts (Hdom & Ht & Hside & Hpar & Hne).
+    destruct (ends_bounds tol o1 d p ko rest Hsh j Hj) as (G1 & G2 & G3). rewrite Hends, Est in G1. rewrite Hends, Een in G2.
+    rewrite (P9 ts).
+    + apply Hoe; [apply (dom_all_of_others tol o d p per1 n T k x0 rest H ts Hdom)|exact Hpar| |exact Hne].
+      destruct Hside as [S1|[_ S1]]; lra.
+    + split; [|split; [|split]].
+      * intros i Hi Hne'. rewrite (Ooth i Hne'). apply Hdom; [rewrite <- Olen; exact Hi|exact Hne'].
+      * rewrite Hends. exact Ht.
+      * rewrite Hends. destruct Hside as [S1|[S1 _]]; [left; exact S1|right; exact S1].
+      * apply Forall_forall. intros z Hz. apply (per_param_to_param_ok tol k per1 n T (x0 :: rest) _ ko z Hpar). right. exact Hz.
+Qed.
+
+(* B. a single split value: one open object on [x, x + T] *)
+Theorem split_periodic_single tol (o : obj R) d p per1 n T k x fuel :
+  psplit_hyps tol o d p per1 n T k x [] -> (1 <= fuel)%nat ->
+  exists o1, @obj_split R NumR fuel tol o d [x] = Ok [o1] /\
+    wf_obj_R tol o1 /\ length (o_bases o1) = length (o_bases o) /\
+    (forall i, i <> d -> nth i (o_bases o1) dflt_basis = nth i (o_bases o) dflt_basis) /\
+    let b1 := nth d (o_bases o1) dflt_basis in
+    b_order b1 = p /\ b_per1 b1 = 0%nat /\ @b_start R NumR b1 = x /\ @b_end R NumR b1 = x + T /\
+    forall ts,
+      (forall i, (i < length (o_bases o))%nat -> i <> d -> in_dom tol (nth i (o_bases o) dflt_basis) (nth i ts 0)) ->
+      x <= nth d ts 0 < x + T ->
+      per_param_ok tol k per1 n T [x] (nth d ts 0) ->
+      (nth d ts 0 = @kn R NumR k (n + per1) -> (mult k (@kn R NumR k (p - 1)) <= p - 1)%nat) ->
+      @obj_eval R NumR tol o1 ts = @obj_eval R NumR tol o ts.
+Proof.
+  intros H Hfuel. destruct fuel as [|f]; [lia|].
+  destruct (psplit_insert tol o d p per1 n T k x [] H) as (so & kf & nf & Hok & Hf & Hperm & Hmall & Hev).
+  assert (Hm : mult kf x = p) by (rewrite Forall_forall in Hmall; apply Hmall; left; reflexivity).
+  pose proof Hf as (Hwfs & Hls & Hoths & Hbs & Hcanf & Hstf & Hsf).
+  pose proof Hcanf as (HKf & Hper1 & Hpp & Hlenf & _).
+  pose proof (psplit_unfold tol o d p per1 n T k x [] H f so kf nf Hok Hbs Hlenf) as Hun.
+  destruct (opened_props tol o d p per1 n T k x [] H so kf nf Hf Hm) as (Owf & Olen & Ooth & Ob & Os & Oe). cbv zeta in *.
+  pose proof (opened_eval tol o d p per1 n T k x [] H so kf nf Hf Hperm Hm Hev) as Hoe.
+  exists (opened d p per1 x so kf nf). split; [exact Hun|]. split; [exact Owf|]. split; [exact Olen|]. split; [exact Ooth|].
+  cbv zeta. rewrite Ob at 1 2. cbn [b_order b_per1]. split; [reflexivity|]. split; [reflexivity|].
+  split; [exact Os|]. split; [exact Oe|].
+  intros ts Hdom Ht Hpar Hseam.
+  apply Hoe; [apply (dom_all_of_others tol o d p per1 n T k x [] H ts Hdom)|exact Hpar|exact Ht|exact Hseam].
+Qed.
+
+(* ---------- why the later split values must lie above the first one: after the opening the object is not periodic any
+   more and its domain is [x0, x0 + T]; a later value below x0 makes continuity() raise ValueError (as the Python code does:
+   split([2.5, 1.0]) on the example curve raises ValueError('out of range')) ---------- *)
+Lemma obj_split_per_unfold tol (o : obj R) d p per1 k ks f so kf nf :
+  nth d (o_bases o) dflt_basis = mkBasis p k per1 -> (1 <= per1)%nat ->
+  @split_insert R NumR tol (mkBasis p k per1) o d ks = Ok so ->
+  nth d (o_bases so) dflt_basis = mkBasis p kf per1 -> length kf = (nf + per1 + p)%nat ->
+  @obj_split R NumR (S f) tol o d ks
+  = let mu := @py_bisect_left R NumR kf (hd 0 ks) in
+    let so' := @obj_along R NumR so d (mkBasis p (kopen kf p per1 mu) 0) (@roll_matrix R NumR nf mu) in
+    match tl ks with [] => Ok [so'] | _ :: _ => @obj_split R NumR f tol so' d (tl ks) end.
+Proof.
+  intros Hb0 Hper1 Hok Hbs Hlenf.
+  cbn [obj_split]. change (@mkBasis R 0 [] 0) with dflt_basis. rewrite Hb0, Hok, Hbs. cbn [b_per1 b_knots b_order].
+  destruct (Nat.eqb_spec per1 0) as [C|_]; [lia|]. cbn [negb].
+  assert (En : @b_nfun R (mkBasis p kf per1) = nf) by (unfold b_nfun; cbn [b_knots b_order b_per1]; lia).
+  rewrite En. unfold kopen, krolled. cbv zeta. change (@n0 R NumR) with 0. destruct (tl ks); reflexivity.
+Qed.
+
+Theorem obj_split_periodic_decreasing tol (o : obj R) d p per1 n T k x0 y fuel :
+  0 < tol -> wf_obj_R tol o -> (d < length (o_bases o))%nat -> nth d (o_bases o) dflt_basis = mkBasis p k per1 ->
+  per_canon k p per1 n T -> per_strict k per1 ->
+  @kn R NumR k (p - 1) <= y < x0 -> x0 < @kn R NumR k (n + per1) ->
+  knot_sep tol k x0 -> knot_sep tol k y -> (mult k x0 <= p)%nat -> (2 <= fuel)%nat ->
+  @obj_split R NumR fuel tol o d [x0; y] = Err ValueError.
+Proof.
+  intros Htol Hwf Hd Hb0 Hcan Hstrict Hy Hx0 Hsx Hsy Hm0 Hfuel. destruct fuel as [|[|f]]; [lia|lia|].
+  pose proof Hcan as (_ & Hper1 & _).
+  destruct (split_insert_per_gen tol Htol d p per1 T k n Hcan [x0; y] o k n Hwf Hd Hb0 Hcan Hstrict eq_refl)
+    as (so & kf & Hok & Hf & Hperm & _).
+  { constructor; [lra|]. constructor; [lra|]. constructor. }
+  { constructor; [exact Hsx|]. constructor; [exact Hsy|]. constructor. }
+  set (nf := (n + length (ins_list p k [x0; y]))%nat) in *.
+  pose proof Hf as (Hwfs & Hls & Hoths & Hbs & Hcanf & Hstf & Hsf).
+  pose proof Hcanf as (HKf & _ & Hpp & Hlenf & _).
+  assert (Hef : @kn R NumR kf (nf + per1) = @kn R NumR k (n + per1)).
+  { rewrite (canon_period kf p per1 nf T Hcanf), Hsf, <- (canon_period k p per1 n T Hcan). reflexivity. }
+  assert (Hm : mult kf x0 = p).
+  { rewrite (mult_window kf p per1 nf T Hcanf Hstf x0) by (rewrite Hsf, Hef; lra).
+    rewrite (Permutation_count_occ Req_EM_T _ _) in Hperm. rewrite (Hperm x0). unfold ins_list. cbn [flat_map]. rewrite !count_occ_app.
+    rewrite count_occ_repeat_eq by reflexivity. rewrite count_occ_repeat_neq by lra. cbn [count_occ].
+    rewrite <- (mult_window k p per1 n T Hcan Hstrict x0) by lra. lia. }
+  destruct (full_mult_window kf p x0 HKf Hm) as (_ & A2 & _). cbv zeta in A2.
+  set (mu := @py_bisect_left R NumR kf x0) in *.
+  assert (Hmup : (mu + p <= nf + per1)%nat).
+  { assert (L : @kn R NumR kf (mu + (p - 1)) < @kn R NumR kf (nf + per1)) by (rewrite A2 by lia; rewrite Hef; lra).
+    apply sorted_lt_idx in L; [lia|exact HKf]. }
+  assert (Hmu : (mu <= nf)%nat) by lia.
+  rewrite (obj_split_per_unfold tol o d p per1 k [x0; y] (S f) so kf nf Hb0 Hper1 Hok Hbs Hlenf). cbv zeta. cbn [hd tl]. fold mu.
+  assert (Hds : (d < length (o_bases so))%nat) by (rewrite Hls; exact Hd).
+  assert (Hb' : nth d (o_bases (@obj_along R NumR so d (mkBasis p (kopen kf p per1 mu) 0) (@roll_matrix R NumR nf mu))) dflt_basis
+                = mkBasis p (kopen kf p per1 mu) 0).
+  { unfold obj_along. cbn [o_bases]. apply upd_nth_same. exact Hds. }
+  generalize dependent (@obj_along R NumR so d (mkBasis p (kopen kf p per1 mu) 0) (@roll_matrix R NumR nf mu)). intros so' Hb'.
+  cbn [obj_split]. change (@mkBasis R 0 [] 0) with dflt_basis. rewrite Hb'. cbn [split_insert].
+  assert (Hc : @basis_continuity R NumR tol (mkBasis p (kopen kf p per1 mu) 0) y = Err ValueError).
+  { unfold basis_continuity. rewrite (kopen_start kf p per1 nf T Hcanf mu Hmu x0 A2 Hmup). cbn [b_per1 Nat.eqb andb nltb NumR].
+    rewrite (Rltb_true y x0) by lra. reflexivity. }
+  rewrite Hc. reflexivity.
+Qed.
+
+(* ---------- the hypotheses are satisfiable: cubic periodic curve (order 4, continuity 2, 8 functions, period 8) on the
+   uniform knots -3 .. 11, split at 5/2 and at [5/2, 5] with tol = 1/100 ---------- *)
+Lemma mult_cons_ne a l x : a <> x -> mult (a :: l) x = mult l x.
+Proof. intros Hne. unfold mult. apply count_occ_cons_neq. exact Hne. Qed.
+Lemma mult_cons_eq a l x : a = x -> mult (a :: l) x = S (mult l x).
+Proof. intros He. unfold mult. apply count_occ_cons_eq. exact He. Qed.
+Ltac mult_compute := repeat (first [rewrite mult_cons_ne by lra | rewrite mult_cons_eq by lra]); unfold mult; cbn [count_occ].
+
+Section Example.
+Let tol := 1/100.
+Let o := @mkObj R [mkBasis 4 ex_knots 3] [[1;0];[0;1];[-1;0];[0;-1];[2;0];[0;2];[-2;0];[0;-2]] 2 false.
+
+Lemma ex_strict : per_strict ex_knots 3.
+Proof. unfold per_strict, kn, ex_knots. cbn. lra. Qed.
+
+Lemma ex_seam_mult : (mult ex_knots (@kn R NumR ex_knots (4 - 1)) <= 4 - 1)%nat.
+Proof.
+  replace (@kn R NumR ex_knots (4 - 1)) with 0 by (unfold kn, ex_knots; cbn; lra).
+  unfold ex_knots. mult_compute. lia.
+Qed.
+
+Ltac knots_cases Hv := cbn [In] in Hv; repeat (destruct Hv as [<-|Hv]; [try lra|]); try contradiction.
+Ltac far_or_on := first [left; lra | right; unfold Rabs; match goal with |- context [Rcase_abs ?a] => destruct (Rcase_abs a) end; lra].
+
+Lemma ex_phyps rest : rest = [] \/ rest = [5] -> psplit_hyps tol o 0 4 3 8 8 ex_knots (5/2) rest.
+Proof.
+  intros Hr.
+  assert (Es : @kn R NumR ex_knots (4 - 1) = 0) by (unfold kn, ex_knots; cbn; lra).
+  assert (Ee : @kn R NumR ex_knots (8 + 3) = 8) by (unfold kn, ex_knots; cbn; lra).
+  pose proof ex_canon as Hc. pose proof Hc as (HK & _).
+  constructor.
+  - unfold tol. lra.
+  - split; [|split].
+    + constructor; [|constructor]. split; [exact HK|]. cbn [b_order b_knots]. split; [lia|]. split; [cbn; lia|].
+      split; [cbn; lia|]. unfold b_start, b_end. cbn [b_knots b_order]. change (length ex_knots - 4)%nat with (8 + 3)%nat.
+      rewrite Es, Ee. unfold tol. lra.
+    + repeat constructor.
+    + reflexivity.
+  - cbn. lia.
+  - reflexivity.
+  - exact Hc.
+  - exact ex_strict.
+  - rewrite Es. lra.
+  - rewrite Ee. unfold gap, tol. destruct Hr as [-> | ->]; cbn [app]; repeat constructor; lra.
+  - assert (S1 : knot_sep tol ex_knots (5/2)).
+    { intros v Hv. unfold ex_knots in Hv. unfold tol. knots_cases Hv. }
+    assert (S2 : knot_sep tol ex_knots 5).
+    { intros v Hv. unfold ex_knots in Hv. unfold tol. knots_cases Hv. }
+    destruct Hr as [-> | ->]; [exact (Forall_cons _ S1 (Forall_nil _))|exact (Forall_cons _ S1 (Forall_cons _ S2 (Forall_nil _)))].
+  - assert (M1 : (mult ex_knots (5/2) <= 4)%nat).
+    { unfold ex_knots. mult_compute. lia. }
+    assert (M2 : (mult ex_knots 5 <= 4)%nat).
+    { unfold ex_knots. mult_compute. lia. }
+    destruct Hr as [-> | ->]; [exact (Forall_cons _ M1 (Forall_nil _))|exact (Forall_cons _ M1 (Forall_cons _ M2 (Forall_nil _)))].
+Qed.
+
+(* parameters at least tol away from every integer and half-integer knot image, or on one of them *)
+Lemma ex_param_ok ks t : (forall x, In x ks -> x = 5/2 \/ x = 5) ->
+  (t = 3 \/ t = 8 \/ t = 9 \/ 5 + tol <= t <= 6 - tol) -> per_param_ok tol ex_knots 3 8 8 ks t.
+Proof.
+  intros Hks Ht. split.
+  - intros v Hv. unfold pvals, pwin, ex_knots in Hv. cbn [skipn firstn map app] in Hv. unfold tol in *.
+    cbn [In] in Hv.
+    repeat (destruct Hv as [<-|Hv]; [destruct Ht as [->|[->|[->|Ht]]]; far_or_on|]). contradiction.
+  - apply Forall_forall. intros x Hx v Hv. unfold tol in *. cbn [In] in Hv.
+    destruct (Hks x Hx) as [-> | ->];
+    repeat (destruct Hv as [<-|Hv]; [destruct Ht as [->|[->|[->|Ht]]]; far_or_on|]); contradiction.
+Qed.
+
+Theorem example_periodic_single : exists o1, @obj_split R NumR 1 tol o 0 [5/2] = Ok [o1] /\
+  @b_start R NumR (nth 0 (o_bases o1) dflt_basis) = 5/2 /\ @b_end R NumR (nth 0 (o_bases o1) dflt_basis) = 5/2 + 8 /\
+  b_per1 (nth 0 (o_bases o1) dflt_basis) = 0%nat /\
+  @obj_eval R NumR tol o1 [3] = @obj_eval R NumR tol o [3] /\
+  @obj_eval R NumR tol o1 [8] = @obj_eval R NumR tol o [8] /\
+  @obj_eval R NumR tol o1 [9] = @obj_eval R NumR tol o [9].
+Proof.
+  destruct (split_periodic_single tol o 0 4 3 8 8 ex_knots (5/2) 1 (ex_phyps [] (or_introl eq_refl)) ltac:(lia))
+    as (o1 & E & _ & _ & _ & P). cbv zeta in P. destruct P as (_ & P2 & P3 & P4 & P5).
+  exists o1. split; [exact E|]. split; [exact P3|]. split; [exact P4|]. split; [exact P2|].
+  assert (Hs : forall t, (t = 3 \/ t = 8 \/ t = 9 \/ 5 + tol <= t <= 6 - tol) -> 5/2 <= t < 5/2 + 8 ->
+               @obj_eval R NumR tol o1 [t] = @obj_eval R NumR tol o [t]).
+  { intros t Ht Hr. apply P5.
+    - intros i Hi Hne. cbn in Hi. lia.
+    - exact Hr.
+    - apply ex_param_ok; [|exact Ht]. intros x [<-|[]]. left. reflexivity.
+    - intros _. exact ex_seam_mult. }
+  split; [apply Hs; [tauto|lra]|]. split; [apply Hs; [tauto|lra]|apply Hs; [tauto|lra]].
+Qed.
+
+Theorem example_periodic_split : exists pieces, @obj_split R NumR 2 tol o 0 [5/2; 5] = Ok pieces /\ length pieces = 2%nat /\
+  @obj_eval R NumR tol (nth 0 pieces o) [3] = @obj_eval R NumR tol o [3] /\
+  @obj_eval R NumR tol (nth 1 pieces o) [8] = @obj_eval R NumR tol o [8] /\
+  @obj_eval R NumR tol (nth 1 pieces o) [9] = @obj_eval R NumR tol o [9] /\
+  forall t, 5 + tol <= t <= 6 - tol -> @obj_eval R NumR tol (nth 1 pieces o) [t] = @obj_eval R NumR tol o [t].
+Proof.
+  destruct (obj_split_periodic tol o 0 4 3 8 8 ex_knots (5/2) [5] 2 (ex_phyps [5] (or_intror eq_refl)) ltac:(lia))
+    as (pieces & E & L & P).
+  exists pieces. split; [exact E|]. split; [exact L|].
+  assert (Hs : forall j t, (j <= 1)%nat -> (t = 3 \/ t = 8 \/ t = 9 \/ 5 + tol <= t <= 6 - tol) ->
+               nth j (pends (5/2) 8 [5]) 0 <= t <= nth (S j) (pends (5/2) 8 [5]) 0 - 2 * tol ->
+               @obj_eval R NumR tol (nth j pieces o) [t] = @obj_eval R NumR tol o [t]).
+  { intros j t Hj Ht Hr. destruct (P j Hj) as (_ & _ & _ & _ & _ & _ & _ & _ & P9). apply P9.
+    split; [intros i Hi Hne; cbn in Hi; lia|]. cbn [nth]. unfold tol in *.
+    split; [lra|]. split; [left; lra|]. split.
+    - apply ex_param_ok; [|exact Ht]. intros x [<-|[<-|[]]]; tauto.
+    - intros _. exact ex_seam_mult. }
+  unfold pends in Hs. cbn [app] in Hs. unfold tol in *.
+  split; [apply (Hs 0%nat 3); [lia|tauto|cbn [nth]; lra]|].
+  split; [apply (Hs 1%nat 8); [lia|tauto|cbn [nth]; lra]|].
+  split; [apply (Hs 1%nat 9); [lia|tauto|cbn [nth]; lra]|].
+  intros t Ht. apply (Hs 1%nat t); [lia|tauto|cbn [nth]; lra].
+Qed.
+
+(* a later value below the first one: ValueError, as SplineObject.split([2.5, 1.0]) on the Python side *)
+Theorem example_periodic_decreasing : @obj_split R NumR 2 tol o 0 [5/2; 1] = Err ValueError.
+Proof.
+  pose proof (ex_phyps [] (or_introl eq_refl)) as H.
+  assert (Es : @kn R NumR ex_knots (4 - 1) = 0) by (unfold kn, ex_knots; cbn; lra).
+  assert (Ee : @kn R NumR ex_knots (8 + 3) = 8) by (unfold kn, ex_knots; cbn; lra).
+  apply (obj_split_periodic_decreasing tol o 0 4 3 8 8 ex_knots (5/2) 1 2
+           (ph_tol _ _ _ _ _ _ _ _ _ _ H) (ph_wf _ _ _ _ _ _ _ _ _ _ H) (ph_dir _ _ _ _ _ _ _ _ _ _ H)
+           (ph_basis _ _ _ _ _ _ _ _ _ _ H) (ph_canon _ _ _ _ _ _ _ _ _ _ H) (ph_strict _ _ _ _ _ _ _ _ _ _ H)).
+  - rewrite Es. lra.
+  - rewrite Ee. lra.
+  - exact (Forall_inv (ph_sep _ _ _ _ _ _ _ _ _ _ H)).
+  - intros v Hv. unfold ex_knots in Hv. unfold tol. knots_cases Hv.
+  - exact (Forall_inv (ph_mult _ _ _ _ _ _ _ _ _ _ H)).
+  - lia.
+Qed.
+End Example.
+
